@@ -1,9 +1,9 @@
 (* C01, the "never left RUNNING with nothing pending" clause, PROVED for join-free programs:
    for every direct workflow without join tasks (any forks, guards, engine commands, cycles), every
-   outcome oracle, every uid oracle and every schedule of the plain events (start, delivery of any
-   pending message / executor request / post-commit queue in any order), whenever nothing is pending the
-   workflow is completed (or PAUSED by a `pause` command of the definition, which only resume - an
-   operator event - leaves).  The proof is the no-lost-wake-up invariant of DESIGN.md 5.4 (I-work),
+   outcome oracle, every uid oracle and every schedule of start, delivery of any pending message /
+   executor request / post-commit queue in any order, and the operator events pause, resume and stop at
+   any point, whenever nothing is pending every task execution is final and the workflow is completed
+   or PAUSED (which only a resume leaves: a paused run that is resumed goes on to completion).  The proof is the no-lost-wake-up invariant of DESIGN.md 5.4 (I-work),
    restricted to the message kinds that exist without joins:
      every IDLE task has a pending start request, every RUNNING task has an unfinished action with a
      pending executor request or result, a RUNNING workflow whose tasks are all completed has a pending
@@ -35,6 +35,7 @@ Qed.
 Definition okc (c : cmd) : bool :=
   match c with
   | CRunTask _ _ false _ => true
+  | CRunExisting _ true false => true
   | CSetState ERROR | CSetState SUCCESS | CSetState PAUSED => true
   | CNoop => true
   | _ => false
@@ -103,6 +104,7 @@ Fixpoint loop (t : tx) (cmds : list cmd) : result :=
                           | None => (t, FForce)
                           end
          | CNoop => loop t rest
+         | CRunExisting tid reset rerun => loop (run_existing_cmd t tid reset rerun) rest
          | _ => (t, FOk)
          end
   end.
@@ -118,126 +120,17 @@ Proof.
     destruct (state_eqb (wf_state (fst t)) PAUSED); [apply IH; [exact Hc2|lia]|].
     destruct c as [name e waiting trig|tid reset rerun|tid|x|]; simpl in Hc1; try discriminate.
     + apply IH; [exact Hc2|lia].
+    + apply IH; [exact Hc2|lia].
     + destruct (set_workflow_state (fst t) x); [apply IH; [exact Hc2|lia]|reflexivity].
     + apply IH; [exact Hc2|lia].
 Qed.
 
-Definition plain_op (o : op) : bool :=
-  match o with
-  | OStartTask _ true false false => true
-  | ORunAction _ => true
-  | OCheck => true
-  | _ => false
-  end.
+End Loop.
 
 Definition is_run (c : cmd) : bool := match c with CRunTask _ _ _ _ => true | _ => false end.
 Definition is_set (c : cmd) : bool := match c with CSetState _ => true | _ => false end.
 Definition idle_row (r : trow) : Prop := t_state r = IDLE.
 Definition okcs (l : list cmd) : Prop := Forall (fun c => okc c = true) l.
-
-Record loop_spec (t t' : tx) (cmds : list cmd) : Prop := {
-  ls_pend : pend (fst t') = pend (fst t);
-  ls_acts : acts (fst t') = acts (fst t);
-  ls_created : wf_created (fst t') = wf_created (fst t);
-  ls_live : live_wf_state (wf_state (fst t')) = true;
-  ls_okb : okcs (backlog (fst t'));
-  ls_new : exists nt more, tasks (fst t') = tasks (fst t) ++ nt /\ Forall idle_row nt /\
-             snd t' = snd t ++ more /\ forallb plain_op more = true /\
-             (forall k, k < length nt -> In (OStartTask (length (tasks (fst t)) + k) true false false) more) /\
-             (wf_state (fst t') = RUNNING -> existsb is_run cmds = true -> nt <> []);
-  ls_running : wf_state (fst t') = RUNNING ->
-               wf_state (fst t) = RUNNING /\ backlog (fst t') = backlog (fst t) /\ existsb is_set cmds = false;
-  ls_quiet : wf_state (fst t) <> RUNNING ->
-             tasks (fst t') = tasks (fst t) /\ wf_state (fst t') = wf_state (fst t) /\ snd t' = snd t
-}.
-
-Lemma set_ws_running s x : wf_state s = RUNNING -> okc (CSetState x) = true ->
-  set_workflow_state s x = Some (set_wf_state s x).
-Proof.
-  intros Hw Hx. destruct x; simpl in Hx; try discriminate;
-    unfold set_workflow_state, stop_workflow, fail_workflow, succeed_workflow, pause_workflow, wf_set_state;
-    rewrite Hw; reflexivity.
-Qed.
-
-Lemma loop_spec_nil t : live_wf_state (wf_state (fst t)) = true -> okcs (backlog (fst t)) -> forall cmds,
-  (wf_state (fst t) = RUNNING -> existsb is_run cmds = false /\ existsb is_set cmds = false) -> loop_spec t t cmds.
-Proof.
-  intros Hl Hb cmds Hc. constructor; auto.
-  - exists [], []. rewrite !app_nil_r. repeat split; auto.
-    + intros k Hk. simpl in Hk. lia.
-    + intros Hw Hr. destruct (Hc Hw) as [H1 _]. congruence.
-  - intros Hw. destruct (Hc Hw) as [_ H2]. auto.
-Qed.
-
-Lemma loop_ok : forall cmds t, okcs cmds -> live_wf_state (wf_state (fst t)) = true -> okcs (backlog (fst t)) ->
-  snd (loop t cmds) = FOk /\ loop_spec t (fst (loop t cmds)) cmds.
-Proof.
-  induction cmds as [|c rest IH]; intros t Hc Hl Hb.
-  - simpl. split; [reflexivity|]. apply loop_spec_nil; auto.
-  - inversion Hc as [|? ? Hc1 Hc2]; subst. cbn [loop].
-    destruct (wf_state (fst t)) eqn:Ew; try discriminate Hl.
-    + (* RUNNING *)
-      change (is_completed RUNNING) with false. change (state_eqb RUNNING PAUSED) with false. cbv iota.
-      destruct c as [name e waiting trig|tid reset rerun|tid|x|]; simpl in Hc1; try discriminate.
-      * destruct waiting; [discriminate|].
-        set (row := mkTrow name IDLE false [] false false false (next_uid (fst t)) (trig_list trig)).
-        change (run_task_cmd sp t name false trig)
-          with (add_task (fst t) row, snd t ++ [OStartTask (length (tasks (fst t))) true false false]).
-        destruct (IH (add_task (fst t) row, snd t ++ [OStartTask (length (tasks (fst t))) true false false]) Hc2) as [Hf Hs];
-          [simpl; rewrite Ew; reflexivity|exact Hb|].
-        split; [exact Hf|]. destruct Hs as [Hp Ha Hcr Hlv Hob Hn Hr Hq].
-        simpl in Hp, Ha, Hcr, Hn, Hr, Hq.
-        constructor; [exact Hp|exact Ha|exact Hcr|exact Hlv|exact Hob| | |].
-        -- destruct Hn as [nt [more [H1 [H2 [H3 [H4 [H5 H6]]]]]]].
-           exists (row :: nt), (OStartTask (length (tasks (fst t))) true false false :: more).
-           repeat split.
-           ++ rewrite H1, <- app_assoc. reflexivity.
-           ++ constructor; [reflexivity|exact H2].
-           ++ rewrite H3, <- app_assoc. reflexivity.
-           ++ simpl. exact H4.
-           ++ intros k Hk. destruct k as [|k].
-              ** left. rewrite Nat.add_0_r. reflexivity.
-              ** right. simpl in Hk. specialize (H5 k ltac:(lia)). rewrite app_length in H5. simpl in H5.
-                 replace (length (tasks (fst t)) + S k) with (length (tasks (fst t)) + 1 + k) by lia. exact H5.
-           ++ intros _ _. discriminate.
-        -- intros Hw. destruct (Hr Hw) as [H1 [H2 H3]]. repeat split; auto.
-        -- intros Hne. congruence.
-      * rewrite (set_ws_running (fst t) x Ew Hc1).
-        destruct (IH (set_wf_state (fst t) x, snd t) Hc2) as [Hf Hs];
-          [simpl; destruct x; simpl in Hc1; try discriminate; reflexivity|exact Hb|].
-        split; [exact Hf|]. destruct Hs as [Hp Ha Hcr Hlv Hob Hn Hr Hq]. simpl in Hp, Ha, Hcr, Hn, Hr, Hq.
-        assert (Hx : x <> RUNNING) by (destruct x; simpl in Hc1; try discriminate; intros; discriminate).
-        destruct (Hq Hx) as [Q1 [Q2 Q3]].
-        constructor; [exact Hp|exact Ha|exact Hcr|exact Hlv|exact Hob| | |].
-        -- exists [], []. rewrite !app_nil_r. repeat split; auto.
-           ++ intros k Hk. simpl in Hk. lia.
-           ++ intros Hw. congruence.
-        -- intros Hw. congruence.
-        -- intros Hne. congruence.
-      * destruct (IH t Hc2 ltac:(rewrite Ew; reflexivity) Hb) as [Hf Hs]. split; [exact Hf|].
-        destruct Hs as [Hp Ha Hcr Hlv Hob Hn Hr Hq].
-        constructor; [exact Hp|exact Ha|exact Hcr|exact Hlv|exact Hob|exact Hn|exact Hr|exact Hq].
-    + (* PAUSED *)
-      change (is_completed PAUSED) with false. change (state_eqb PAUSED PAUSED) with true. cbv iota.
-      destruct (IH (backlog_push t c) Hc2) as [Hf Hs]; [simpl; rewrite Ew; reflexivity| |].
-      { simpl. apply Forall_app. split; [exact Hb|constructor; [exact Hc1|constructor]]. }
-      split; [exact Hf|]. destruct Hs as [Hp Ha Hcr Hlv Hob Hn Hr Hq]. simpl in Hp, Ha, Hcr, Hn, Hr, Hq.
-      assert (Hx : wf_state (fst t) <> RUNNING) by congruence.
-      destruct (Hq Hx) as [Q1 [Q2 Q3]].
-      constructor; [exact Hp|exact Ha|exact Hcr|exact Hlv|exact Hob| | |].
-      * exists [], []. rewrite !app_nil_r. repeat split; auto.
-        -- intros k Hk. simpl in Hk. lia.
-        -- intros Hw. congruence.
-      * intros Hw. congruence.
-      * intros _. repeat split; congruence.
-    + change (is_completed SUCCESS) with true; cbv iota. split; [reflexivity|].
-      apply loop_spec_nil; [simpl; rewrite Ew; reflexivity|exact Hb|simpl fst; intros H; congruence].
-    + change (is_completed CANCELLED) with true; cbv iota. split; [reflexivity|].
-      apply loop_spec_nil; [simpl; rewrite Ew; reflexivity|exact Hb|simpl fst; intros H; congruence].
-    + change (is_completed ERROR) with true; cbv iota. split; [reflexivity|].
-      apply loop_spec_nil; [simpl; rewrite Ew; reflexivity|exact Hb|simpl fst; intros H; congruence].
-Qed.
-End Loop.
 
 (* ------------------------------------------------------------ more on rearrange *)
 Definition nonnoop (c : cmd) : bool := match c with CNoop => false | _ => true end.
@@ -294,64 +187,360 @@ Proof.
       rewrite Hsc in H; rewrite ?orb_true_r in H; simpl in H; discriminate.
 Qed.
 
-(* ------------------------------------------------------------ dispatch on ok commands *)
+
+Lemma rearrange_in_filter l c : In c (rearrange l) -> In c (filter nonnoop l).
+Proof.
+  assert (Hs : forall m x, In x (sort_cmds m) -> In x m).
+  { intros m x Hx. eapply Permutation_in; [apply Permutation_sym, sort_cmds_perm|exact Hx]. }
+  destruct (rearrange_shape l) as [[_ ->]|[mid [sc [b [El [_ Hr]]]]]]; [apply Hs|].
+  rewrite El. intros H. apply in_or_app.
+  destruct Hr as [Hr|[Hr|Hr]]; rewrite Hr in H.
+  - apply in_app_or in H. destruct H as [H|H]; [left; apply Hs, H|right; exact H].
+  - destruct H as [<-|[]]. right. left. reflexivity.
+  - apply in_app_or in H. destruct H as [H|[<-|[]]]; [left; apply Hs, H|right; left; reflexivity].
+Qed.
+
+Lemma rearrange_nonnoop l c : In c (rearrange l) -> nonnoop c = true.
+Proof. intros H. apply rearrange_in_filter in H. apply filter_In in H. apply H. Qed.
+
+Lemma rearrange_noset_perm l : existsb is_set (rearrange l) = false -> Permutation (filter nonnoop l) (rearrange l).
+Proof.
+  intros H. destruct (rearrange_shape l) as [[_ Hr]|[mid [sc [b [El [Hsc Hr]]]]]].
+  - rewrite Hr. apply sort_cmds_perm.
+  - exfalso. destruct Hr as [Hr|[Hr|Hr]]; rewrite Hr in H; rewrite ?existsb_app in H; simpl in H;
+      rewrite Hsc in H; rewrite ?orb_true_r in H; simpl in H; discriminate.
+Qed.
+
+(* what may sit in the backlog / be processed by the loop: ok, not a noop (rearrange drops them), and
+   a RunExisting command refers to an existing task execution *)
+Definition bk_ok (n : nat) (c : cmd) : bool :=
+  okc c && nonnoop c && match c with CRunExisting tid _ _ => Nat.ltb tid n | _ => true end.
+Definition bks (n : nat) (l : list cmd) : Prop := Forall (fun c => bk_ok n c = true) l.
+
+Lemma bk_ok_mono n m c : n <= m -> bk_ok n c = true -> bk_ok m c = true.
+Proof.
+  unfold bk_ok. intros Hle H. apply andb_true_iff in H. destruct H as [H1 H2]. rewrite H1. simpl.
+  destruct c; auto. apply Nat.ltb_lt in H2. apply Nat.ltb_lt. lia.
+Qed.
+
+Lemma bks_mono n m l : n <= m -> bks n l -> bks m l.
+Proof. intros Hle H. eapply Forall_impl; [|exact H]. intros c. apply bk_ok_mono, Hle. Qed.
+
+Definition in_range (n : nat) (l : list cmd) : Prop := forall tid a b, In (CRunExisting tid a b) l -> tid < n.
+
+Lemma rearrange_bks n l : okcs l -> in_range n l -> bks n (rearrange l).
+Proof.
+  intros Hok Hr. apply Forall_forall. intros c Hc.
+  pose proof (rearrange_nonnoop _ _ Hc) as Hn. apply rearrange_incl in Hc.
+  unfold okcs in Hok. rewrite Forall_forall in Hok. unfold bk_ok. rewrite (Hok c Hc), Hn. simpl.
+  destruct c; auto. apply Nat.ltb_lt. eapply Hr. exact Hc.
+Qed.
+
+Lemma bks_okcs n l : bks n l -> okcs l.
+Proof. intros H. eapply Forall_impl; [|exact H]. intros c Hc. unfold bk_ok in Hc. apply andb_true_iff in Hc. destruct Hc as [Hc _]. apply andb_true_iff in Hc. apply Hc. Qed.
+
+Definition sflag (f r x : bool) : bool := (f && negb r && negb x) || (negb f && negb r && x).
+
+Definition plain_op (o : op) : bool :=
+  match o with
+  | OStartTask _ f r x => sflag f r x
+  | ORunAction _ => true
+  | OCheck => true
+  | _ => false
+  end.
+
+(* ================================================================= what the loop does *)
+Section Loop2.
+Variable sp : spec.
+
+Record loop_spec (t t' : tx) (cmds : list cmd) : Prop := {
+  ls_pend : pend (fst t') = pend (fst t);
+  ls_acts : acts (fst t') = acts (fst t);
+  ls_created : wf_created (fst t') = wf_created (fst t);
+  ls_live : live_wf_state (wf_state (fst t')) = true;
+  ls_okb : bks (length (tasks (fst t'))) (backlog (fst t'));
+  ls_new : exists nt more, tasks (fst t') = tasks (fst t) ++ nt /\ Forall idle_row nt /\
+             snd t' = snd t ++ more /\ forallb plain_op more = true /\
+             (forall k, k < length nt -> In (OStartTask (length (tasks (fst t)) + k) true false false) more) /\
+             (wf_state (fst t') = RUNNING -> existsb is_run cmds = true -> nt <> []) /\
+             (wf_state (fst t') = RUNNING -> forall tid, In (CRunExisting tid true false) cmds ->
+                In (OStartTask tid false false true) more);
+  ls_running : wf_state (fst t') = RUNNING ->
+               wf_state (fst t) = RUNNING /\ backlog (fst t') = backlog (fst t) /\ existsb is_set cmds = false;
+  ls_quiet : wf_state (fst t) <> RUNNING ->
+             tasks (fst t') = tasks (fst t) /\ wf_state (fst t') = wf_state (fst t) /\ snd t' = snd t
+}.
+
+Lemma set_ws_running s x : wf_state s = RUNNING -> okc (CSetState x) = true ->
+  set_workflow_state s x = Some (set_wf_state s x).
+Proof.
+  intros Hw Hx. destruct x; simpl in Hx; try discriminate;
+    unfold set_workflow_state, stop_workflow, fail_workflow, succeed_workflow, pause_workflow, wf_set_state;
+    rewrite Hw; reflexivity.
+Qed.
+
+Lemma loop_spec_nil t : live_wf_state (wf_state (fst t)) = true -> bks (length (tasks (fst t))) (backlog (fst t)) ->
+  forall cmds, (wf_state (fst t) = RUNNING -> cmds = []) -> loop_spec t t cmds.
+Proof.
+  intros Hl Hb cmds Hc. constructor; auto.
+  - exists [], []. rewrite !app_nil_r. repeat split; auto.
+    + intros k Hk. simpl in Hk. lia.
+    + intros Hw Hr. rewrite (Hc Hw) in Hr. discriminate.
+    + intros Hw tid Hin. rewrite (Hc Hw) in Hin. destruct Hin.
+  - intros Hw. rewrite (Hc Hw). auto.
+Qed.
+
+Lemma bk_ok_okc n c : bk_ok n c = true -> okc c = true.
+Proof. unfold bk_ok. intros H. apply andb_true_iff in H. destruct H as [H _]. apply andb_true_iff in H. apply H. Qed.
+
+Lemma loop_ok : forall cmds t, bks (length (tasks (fst t))) cmds -> live_wf_state (wf_state (fst t)) = true ->
+  bks (length (tasks (fst t))) (backlog (fst t)) ->
+  snd (loop sp t cmds) = FOk /\ loop_spec t (fst (loop sp t cmds)) cmds.
+Proof.
+  induction cmds as [|c rest IH]; intros t Hc Hl Hb.
+  - simpl. split; [reflexivity|]. apply loop_spec_nil; auto.
+  - inversion Hc as [|? ? Hc1 Hc2]; subst. cbn [loop].
+    pose proof (bk_ok_okc _ _ Hc1) as Hc1o.
+    destruct (wf_state (fst t)) eqn:Ew; try discriminate Hl.
+    + (* RUNNING *)
+      change (is_completed RUNNING) with false. change (state_eqb RUNNING PAUSED) with false. cbv iota.
+      destruct c as [name e waiting trig|tid reset rerun|tid|x|]; simpl in Hc1o; try discriminate.
+      * destruct waiting; [discriminate|].
+        set (row := mkTrow name IDLE false [] false false false (next_uid (fst t)) (trig_list trig)).
+        change (run_task_cmd sp t name false trig)
+          with (add_task (fst t) row, snd t ++ [OStartTask (length (tasks (fst t))) true false false]).
+        assert (Hlen : length (tasks (fst t) ++ [row]) = S (length (tasks (fst t)))) by (rewrite app_length; simpl; lia).
+        destruct (IH (add_task (fst t) row, snd t ++ [OStartTask (length (tasks (fst t))) true false false])) as [Hf Hs].
+        { cbn [fst add_task tasks]. rewrite Hlen. eapply bks_mono; [|exact Hc2]. lia. }
+        { simpl. rewrite Ew. reflexivity. }
+        { cbn [fst add_task tasks backlog]. rewrite Hlen. eapply bks_mono; [|exact Hb]. lia. }
+        split; [exact Hf|]. destruct Hs as [Hp Ha Hcr Hlv Hob Hn Hr Hq].
+        cbn [fst snd add_task tasks acts pend wf_created wf_state backlog] in Hp, Ha, Hcr, Hn, Hr, Hq.
+        constructor; [exact Hp|exact Ha|exact Hcr|exact Hlv|exact Hob| | |].
+        -- destruct Hn as [nt [more [H1 [H2 [H3 [H4 [H5 [H6 H7]]]]]]]].
+           exists (row :: nt), (OStartTask (length (tasks (fst t))) true false false :: more).
+           split; [rewrite H1, <- app_assoc; reflexivity|].
+           split; [constructor; [reflexivity|exact H2]|].
+           split; [rewrite H3, <- app_assoc; reflexivity|].
+           split; [simpl; exact H4|].
+           split; [|split].
+           ++ intros k Hk. destruct k as [|k].
+              ** left. rewrite Nat.add_0_r. reflexivity.
+              ** right. simpl in Hk. specialize (H5 k ltac:(lia)). rewrite Hlen in H5.
+                 replace (length (tasks (fst t)) + S k) with (S (length (tasks (fst t))) + k) by lia. exact H5.
+           ++ intros _ _. discriminate.
+           ++ intros Hw tid Hin. right. apply (H7 Hw). destruct Hin as [Hin|Hin]; [discriminate|exact Hin].
+        -- intros Hw. destruct (Hr Hw) as [H1 [H2 H3]]. repeat split; auto.
+        -- intros Hne. congruence.
+      * destruct reset; [|discriminate]. destruct rerun; [discriminate|].
+        assert (Et2 : run_existing_cmd t tid true false = (fst t, snd t ++ [OStartTask tid false false true])).
+        { unfold run_existing_cmd. rewrite andb_false_r. reflexivity. }
+        rewrite Et2.
+        destruct (IH (fst t, snd t ++ [OStartTask tid false false true]) Hc2) as [Hf Hs]; [simpl; rewrite Ew; reflexivity|exact Hb|].
+        split; [exact Hf|]. destruct Hs as [Hp Ha Hcr Hlv Hob Hn Hr Hq]. cbn [fst snd] in Hp, Ha, Hcr, Hn, Hr, Hq.
+        constructor; [exact Hp|exact Ha|exact Hcr|exact Hlv|exact Hob| | |].
+        -- destruct Hn as [nt [more [H1 [H2 [H3 [H4 [H5 [H6 H7]]]]]]]].
+           exists nt, (OStartTask tid false false true :: more).
+           split; [exact H1|]. split; [exact H2|].
+           split; [rewrite H3, <- app_assoc; reflexivity|].
+           split; [simpl; exact H4|].
+           split; [|split].
+           ++ intros k Hk. right. apply H5, Hk.
+           ++ intros Hw Hrun. apply (H6 Hw). exact Hrun.
+           ++ intros Hw tid' Hin. destruct Hin as [Hin|Hin].
+              ** injection Hin as <-. left. reflexivity.
+              ** right. apply (H7 Hw), Hin.
+        -- intros Hw. destruct (Hr Hw) as [H1 [H2 H3]]. repeat split; auto.
+        -- intros Hne. congruence.
+      * rewrite (set_ws_running (fst t) x Ew Hc1o).
+        destruct (IH (set_wf_state (fst t) x, snd t) Hc2) as [Hf Hs];
+          [simpl; destruct x; simpl in Hc1o; try discriminate; reflexivity|exact Hb|].
+        split; [exact Hf|]. destruct Hs as [Hp Ha Hcr Hlv Hob Hn Hr Hq]. simpl in Hp, Ha, Hcr, Hn, Hr, Hq.
+        assert (Hx : x <> RUNNING) by (destruct x; simpl in Hc1o; try discriminate; intros; discriminate).
+        destruct (Hq Hx) as [Q1 [Q2 Q3]].
+        constructor; [exact Hp|exact Ha|exact Hcr|exact Hlv|exact Hob| | |].
+        -- exists [], []. rewrite !app_nil_r. repeat split; auto.
+           ++ intros k Hk. simpl in Hk. lia.
+           ++ intros Hw. congruence.
+           ++ intros Hw. congruence.
+        -- intros Hw. congruence.
+        -- intros Hne. congruence.
+    + (* PAUSED *)
+      change (is_completed PAUSED) with false. change (state_eqb PAUSED PAUSED) with true. cbv iota.
+      destruct (IH (backlog_push t c) Hc2) as [Hf Hs]; [simpl; rewrite Ew; reflexivity| |].
+      { simpl. apply Forall_app. split; [exact Hb|constructor; [exact Hc1|constructor]]. }
+      split; [exact Hf|]. destruct Hs as [Hp Ha Hcr Hlv Hob Hn Hr Hq]. simpl in Hp, Ha, Hcr, Hn, Hr, Hq.
+      assert (Hx : wf_state (fst t) <> RUNNING) by congruence.
+      destruct (Hq Hx) as [Q1 [Q2 Q3]].
+      constructor; [exact Hp|exact Ha|exact Hcr|exact Hlv|exact Hob| | |].
+      * exists [], []. rewrite !app_nil_r. repeat split; auto.
+        -- intros k Hk. simpl in Hk. lia.
+        -- intros Hw. congruence.
+        -- intros Hw. congruence.
+      * intros Hw. congruence.
+      * intros _. repeat split; congruence.
+    + change (is_completed SUCCESS) with true; cbv iota. split; [reflexivity|].
+      apply loop_spec_nil; [simpl; rewrite Ew; reflexivity|exact Hb|simpl fst; intros H; congruence].
+    + change (is_completed CANCELLED) with true; cbv iota. split; [reflexivity|].
+      apply loop_spec_nil; [simpl; rewrite Ew; reflexivity|exact Hb|simpl fst; intros H; congruence].
+    + change (is_completed ERROR) with true; cbv iota. split; [reflexivity|].
+      apply loop_spec_nil; [simpl; rewrite Ew; reflexivity|exact Hb|simpl fst; intros H; congruence].
+Qed.
+
+(* when the workflow is still RUNNING after a non-empty loop, something is going to wake it up *)
+Lemma loop_progress t t' cmds : bks (length (tasks (fst t))) cmds -> loop_spec t t' cmds ->
+  wf_state (fst t') = RUNNING -> cmds <> [] ->
+  exists nt more, tasks (fst t') = tasks (fst t) ++ nt /\ snd t' = snd t ++ more /\
+    (nt <> [] \/ exists tid, tid < length (tasks (fst t)) /\ In (OStartTask tid false false true) more).
+Proof.
+  intros Hb Hs Hw Hne. destruct (ls_running _ _ _ Hs Hw) as [_ [_ Hns]].
+  destruct (ls_new _ _ _ Hs) as [nt [more [H1 [_ [H3 [_ [_ [H6 H7]]]]]]]].
+  exists nt, more. split; [exact H1|]. split; [exact H3|].
+  destruct cmds as [|c rest]; [contradiction|].
+  inversion Hb as [|? ? Hc1 _]; subst. simpl in Hns. apply orb_false_iff in Hns. destruct Hns as [Hc _].
+  pose proof (bk_ok_okc _ _ Hc1) as Hok. unfold bk_ok in Hc1.
+  destruct c as [name e waiting trig|tid reset rerun|tid|x|]; simpl in Hok, Hc; try discriminate.
+  - left. apply (H6 Hw). reflexivity.
+  - destruct reset; [|discriminate]. destruct rerun; [discriminate|]. right. exists tid. split.
+    + simpl in Hc1. apply Nat.ltb_lt. exact Hc1.
+    + apply (H7 Hw). left. reflexivity.
+Qed.
+End Loop2.
+
+(* ================================================================= dispatch = two loops *)
+Lemma set_backlog_nil s : backlog s = [] -> set_backlog s [] = s.
+Proof. destruct s; simpl; intros ->; reflexivity. Qed.
+
+Lemma rearrange_nil : rearrange [] = [].
+Proof. reflexivity. Qed.
+
+Lemma dispatch_loops sp f t cmds : okcs cmds -> okcs (backlog (fst t)) ->
+  length cmds + length (backlog (fst t)) + 1 < f ->
+  dispatch sp f t cmds =
+  match loop sp (set_backlog (fst t) [], snd t) (rearrange (backlog (fst t))) with
+  | (t1, FOk) => loop sp t1 (rearrange cmds)
+  | r => r
+  end.
+Proof.
+  intros Hc Hb Hf. rewrite dispatch_eq. destruct f as [|f]; [lia|]. cbv zeta.
+  pose proof (rearrange_length cmds) as Hlen.
+  destruct (backlog (fst t)) as [|b bl] eqn:Eb.
+  - rewrite rearrange_nil. cbn [loop]. rewrite set_backlog_nil by exact Eb.
+    rewrite process_cmds_loop by (try apply rearrange_okc; try exact Hc; simpl in Hf; lia).
+    destruct t; reflexivity.
+  - pose proof (rearrange_length (b :: bl)) as Hlen2.
+    rewrite process_cmds_loop by (try apply rearrange_okc; try exact Hb; simpl in Hf, Hlen2 |- *; lia).
+    destruct (loop sp (set_backlog (fst t) [], snd t) (rearrange (b :: bl))) as [t1 fl]. destruct fl; [|reflexivity].
+    apply process_cmds_loop; [apply rearrange_okc; exact Hc|simpl in Hf; lia].
+Qed.
+
 Record disp_spec (t t' : tx) (cmds : list cmd) : Prop := {
   ds_pend : pend (fst t') = pend (fst t);
   ds_acts : acts (fst t') = acts (fst t);
   ds_created : wf_created (fst t') = wf_created (fst t);
   ds_live : live_wf_state (wf_state (fst t')) = true;
-  ds_okb : okcs (backlog (fst t'));
+  ds_okb : bks (length (tasks (fst t'))) (backlog (fst t'));
   ds_bl : wf_state (fst t') = RUNNING -> backlog (fst t') = [];
   ds_new : exists nt more, tasks (fst t') = tasks (fst t) ++ nt /\ Forall idle_row nt /\
              snd t' = snd t ++ more /\ forallb plain_op more = true /\
              (forall k, k < length nt -> In (OStartTask (length (tasks (fst t)) + k) true false false) more) /\
-             (wf_state (fst t') = RUNNING -> existsb is_run cmds = true -> nt <> []);
+             (wf_state (fst t') = RUNNING -> existsb is_run cmds = true -> nt <> []) /\
+             (wf_state (fst t') = RUNNING -> filter nonnoop (backlog (fst t)) ++ filter nonnoop cmds <> [] ->
+                nt <> [] \/ exists tid, tid < length (tasks (fst t')) /\ In (OStartTask tid false false true) more);
   ds_running : wf_state (fst t') = RUNNING -> wf_state (fst t) = RUNNING;
   ds_quiet : wf_state (fst t) <> RUNNING ->
              tasks (fst t') = tasks (fst t) /\ wf_state (fst t') = wf_state (fst t) /\ snd t' = snd t
 }.
 
+Lemma bks_in_range n l : bks n l -> in_range n l.
+Proof.
+  intros H tid a b Hin. unfold bks in H. rewrite Forall_forall in H. specialize (H _ Hin).
+  unfold bk_ok in H. apply andb_true_iff in H. destruct H as [_ H]. apply Nat.ltb_lt. exact H.
+Qed.
+
+Lemma perm_nonempty {A} (l l' : list A) : Permutation l l' -> l <> [] -> l' <> [].
+Proof. intros Hp Hne ->. apply Permutation_sym, Permutation_nil in Hp. contradiction. Qed.
+
 Lemma dispatch_ok sp f t cmds :
-  okcs cmds -> live_wf_state (wf_state (fst t)) = true -> okcs (backlog (fst t)) ->
-  (wf_state (fst t) = RUNNING -> backlog (fst t) = []) ->
+  okcs cmds -> in_range (length (tasks (fst t))) cmds ->
+  live_wf_state (wf_state (fst t)) = true -> bks (length (tasks (fst t))) (backlog (fst t)) ->
   length cmds + length (backlog (fst t)) + 1 < f ->
   snd (dispatch sp f t cmds) = FOk /\ disp_spec t (fst (dispatch sp f t cmds)) cmds.
 Proof.
-  intros Hc Hl Hb HB Hf. rewrite dispatch_eq. destruct f as [|f]; [lia|]. cbv zeta.
-  pose proof (rearrange_length cmds) as Hlen.
-  destruct (backlog (fst t)) as [|b bl] eqn:Eb.
-  - rewrite process_cmds_loop by (try apply rearrange_okc; try exact Hc; simpl in Hf; lia).
-    destruct (loop_ok sp (rearrange cmds) t (rearrange_okc _ Hc) Hl) as [Hfl Hs]; [rewrite Eb; constructor|].
-    split; [exact Hfl|]. destruct Hs as [Hp Ha Hcr Hlv Hob Hn Hr Hq].
-    constructor; [exact Hp|exact Ha|exact Hcr|exact Hlv|exact Hob| | | |exact Hq].
-    + intros Hw. destruct (Hr Hw) as [_ [H2 _]]. rewrite H2. exact Eb.
-    + destruct Hn as [nt [more [H1 [H2 [H3 [H4 [H5 H6]]]]]]]. exists nt, more. repeat split; auto.
-      intros Hw Hrun. apply (H6 Hw). destruct (Hr Hw) as [_ [_ H7]]. rewrite (rearrange_noset_run _ H7). exact Hrun.
-    + intros Hw. apply (Hr Hw).
-  - assert (Hnr : wf_state (fst t) <> RUNNING) by (intros Hw; specialize (HB Hw); discriminate).
-    pose proof (rearrange_length (b :: bl)) as Hlen2.
-    rewrite process_cmds_loop by (try apply rearrange_okc; try exact Hb; simpl in Hf, Hlen2 |- *; lia).
-    destruct (loop_ok sp (rearrange (b :: bl)) (set_backlog (fst t) [], snd t) (rearrange_okc _ Hb) Hl) as [Hfl Hs];
-      [constructor|].
-    destruct (loop sp (set_backlog (fst t) [], snd t) (rearrange (b :: bl))) as [t1 fl1]. simpl in Hfl, Hs. subst fl1.
-    destruct Hs as [Hp Ha Hcr Hlv Hob Hn Hr Hq]. simpl in Hp, Ha, Hcr, Hq. destruct (Hq Hnr) as [Q1 [Q2 Q3]].
-    rewrite process_cmds_loop by (try apply rearrange_okc; try exact Hc; simpl in Hf; lia).
-    destruct (loop_ok sp (rearrange cmds) t1 (rearrange_okc _ Hc) Hlv Hob) as [Hfl2 Hs2].
-    split; [exact Hfl2|]. destruct Hs2 as [Hp2 Ha2 Hcr2 Hlv2 Hob2 Hn2 Hr2 Hq2].
-    assert (Hnr1 : wf_state (fst t1) <> RUNNING) by congruence.
-    destruct (Hq2 Hnr1) as [R1 [R2 R3]].
-    assert (Hnr2 : wf_state (fst (fst (loop sp t1 (rearrange cmds)))) <> RUNNING) by congruence.
-    constructor; [congruence|congruence|congruence|exact Hlv2|exact Hob2|congruence| |congruence|].
-    + exists [], []. rewrite !app_nil_r.
-      split; [congruence|]. split; [constructor|]. split; [congruence|]. split; [reflexivity|].
-      split; [intros k Hk; simpl in Hk; lia|congruence].
-    + intros _. split; [congruence|]. split; congruence.
+  intros Hc Hr Hl Hb Hf. set (n := length (tasks (fst t))) in *.
+  rewrite dispatch_loops by (try exact Hc; try (eapply bks_okcs; exact Hb); exact Hf).
+  set (t0 := (set_backlog (fst t) [], snd t)).
+  destruct (loop_ok sp (rearrange (backlog (fst t))) t0) as [Hf1 S1].
+  { apply rearrange_bks; [eapply bks_okcs; exact Hb|apply bks_in_range; exact Hb]. }
+  { exact Hl. }
+  { constructor. }
+  destruct (loop sp t0 (rearrange (backlog (fst t)))) as [t1 fl1]. cbn [fst snd] in Hf1, S1. subst fl1.
+  destruct S1 as [P1 A1 C1 L1 O1 N1 R1 Q1]. cbn [t0 fst snd set_backlog pend acts wf_created wf_state tasks backlog] in P1, A1, C1, N1, R1, Q1.
+  destruct N1 as [nt1 [more1 [T1 [I1 [M1 [PL1 [IX1 [RN1 RE1]]]]]]]].
+  assert (Hn1 : length (tasks (fst t1)) = n + length nt1) by (rewrite T1, app_length; reflexivity).
+  destruct (loop_ok sp (rearrange cmds) t1) as [Hf2 S2].
+  { eapply bks_mono; [|apply rearrange_bks; [exact Hc|exact Hr]]. lia. }
+  { exact L1. }
+  { exact O1. }
+  split; [exact Hf2|].
+  pose proof S2 as S2'.
+  destruct S2 as [P2 A2 C2 L2 O2 N2 R2 Q2].
+  destruct N2 as [nt2 [more2 [T2 [I2 [M2 [PL2 [IX2 [RN2 RE2]]]]]]]].
+  set (t2 := fst (loop sp t1 (rearrange cmds))) in *.
+  constructor.
+  - congruence.
+  - congruence.
+  - congruence.
+  - exact L2.
+  - exact O2.
+  - intros Hw. destruct (R2 Hw) as [Hw1 [B2 _]]. destruct (R1 Hw1) as [_ [B1 _]]. congruence.
+  - exists (nt1 ++ nt2), (more1 ++ more2).
+    split; [rewrite T2, T1, app_assoc; reflexivity|].
+    split; [apply Forall_app; split; assumption|].
+    split; [rewrite M2, M1, app_assoc; reflexivity|].
+    split; [rewrite forallb_app, PL1, PL2; reflexivity|].
+    split; [|split].
+    + intros k Hk. rewrite app_length in Hk. apply in_or_app.
+      destruct (Nat.lt_ge_cases k (length nt1)) as [Hlt|Hge].
+      * left. apply IX1, Hlt.
+      * right. specialize (IX2 (k - length nt1) ltac:(lia)). rewrite Hn1 in IX2.
+        replace (n + length nt1 + (k - length nt1)) with (n + k) in IX2 by lia. exact IX2.
+    + intros Hw Hrun. destruct (R2 Hw) as [_ [_ Hns]].
+      rewrite <- (rearrange_noset_run _ Hns) in Hrun. specialize (RN2 Hw Hrun).
+      intros E. apply app_eq_nil in E. destruct E as [_ E]. contradiction.
+    + intros Hw Hne. destruct (R2 Hw) as [Hw1 [_ Hns2]]. destruct (R1 Hw1) as [_ [_ Hns1]].
+      assert (Hlen2 : length (tasks (fst t2)) = n + length nt1 + length nt2) by (rewrite T2, app_length, Hn1; reflexivity).
+      destruct (filter nonnoop (backlog (fst t))) as [|b0 bl0] eqn:Efb.
+      * simpl in Hne.
+        assert (Hne2 : rearrange cmds <> []) by (eapply perm_nonempty; [apply rearrange_noset_perm; exact Hns2|exact Hne]).
+        destruct (loop_progress t1 t2 (rearrange cmds)) as [nt' [more' [T' [M' Hp]]]]; [|exact S2'|exact Hw|exact Hne2|].
+        { eapply bks_mono; [|apply rearrange_bks; [exact Hc|exact Hr]]. lia. }
+        rewrite T2 in T'. apply app_inv_head in T'. rewrite M2 in M'. apply app_inv_head in M'. subst nt' more'.
+        destruct Hp as [Hp|[tid [Ht Hin]]].
+        -- left. intros E. apply app_eq_nil in E. destruct E as [_ E]. contradiction.
+        -- right. exists tid. split; [lia|apply in_or_app; right; exact Hin].
+      * assert (Hne1 : rearrange (backlog (fst t)) <> []).
+        { eapply perm_nonempty; [apply rearrange_noset_perm; exact Hns1|rewrite Efb; discriminate]. }
+        assert (S1' : loop_spec t0 t1 (rearrange (backlog (fst t)))).
+        { constructor; cbn [t0 fst snd set_backlog pend acts wf_created wf_state tasks backlog]; try assumption.
+          exists nt1, more1. repeat split; assumption. }
+        destruct (loop_progress t0 t1 (rearrange (backlog (fst t)))) as [nt' [more' [T' [M' Hp]]]]; [|exact S1'|exact Hw1|exact Hne1|].
+        { apply rearrange_bks; [eapply bks_okcs; exact Hb|apply bks_in_range; exact Hb]. }
+        cbn [t0 fst snd set_backlog tasks] in T', M', Hp.
+        rewrite T1 in T'. apply app_inv_head in T'. rewrite M1 in M'. apply app_inv_head in M'. subst nt' more'.
+        destruct Hp as [Hp|[tid [Ht Hin]]].
+        -- left. intros E. apply app_eq_nil in E. destruct E as [E _]. contradiction.
+        -- right. exists tid. split; [fold n in Ht; lia|apply in_or_app; left; exact Hin].
+  - intros Hw. destruct (R2 Hw) as [Hw1 _]. apply (R1 Hw1).
+  - intros Hne. destruct (Q1 Hne) as [QA [QB QC]].
+    assert (Hne1 : wf_state (fst t1) <> RUNNING) by congruence.
+    destruct (Q2 Hne1) as [QD [QE QF]]. repeat split; congruence.
 Qed.
 
 (* ================================================================= the no-lost-wake-up invariant *)
 Definition plain_item (i : item) : bool :=
   match i with
-  | IStartTask _ true false false => true
+  | IStartTask _ f r x => sflag f r x
   | IExec _ => true
   | IResult _ _ => true
   | IPtq ops => forallb plain_op ops
@@ -363,32 +552,40 @@ Definition plain_item (i : item) : bool :=
 Definition op_avail (p : list item) (ops : list op) (o : op) : Prop :=
   In o ops \/ exists q, In (IPtq q) p /\ In o q.
 Definition start_pending (p : list item) (ops : list op) (tid : nat) : Prop :=
-  In (IStartTask tid true false false) p \/ op_avail p ops (OStartTask tid true false false).
+  exists f r x, sflag f r x = true /\ (In (IStartTask tid f r x) p \/ op_avail p ops (OStartTask tid f r x)).
 Definition act_pending (p : list item) (ops : list op) (aid : nat) : Prop :=
   In (IExec aid) p \/ (exists r, In (IResult aid r) p) \/ op_avail p ops (ORunAction aid).
 Definition check_pending (p : list item) (ops : list op) : Prop := op_avail p ops OCheck.
+(* a resume-issued start request for an existing task: it starts the task or registers a completion check *)
+Definition rs_pending (n : nat) (p : list item) (ops : list op) : Prop :=
+  exists tid, tid < n /\ (In (IStartTask tid false false true) p \/ op_avail p ops (OStartTask tid false false true)).
 
 Definition incomplete_task (s : st) : Prop :=
   exists tid r, nth_error (tasks s) tid = Some r /\ is_completed (t_state r) = false.
 
+Definition chk (s : st) (p : list item) (ops : list op) : Prop :=
+  incomplete_task s \/ check_pending p ops \/ rs_pending (length (tasks s)) p ops.
+
 (* X = the task whose action result is being processed (None outside of that) *)
-Record Wk (X : option nat) (s : st) (ops : list op) : Prop := {
-  W_created : wf_created s = true;
-  W_live : live_wf_state (wf_state s) = true;
-  W_okb : okcs (backlog s);
-  W_bl : wf_state s = RUNNING -> backlog s = [];
-  W_states : forall tid r, nth_error (tasks s) tid = Some r ->
+Record WkNC (X : option nat) (s : st) (ops : list op) : Prop := {
+  N_created : wf_created s = true;
+  N_live : live_wf_state (wf_state s) = true;
+  N_okb : bks (length (tasks s)) (backlog s);
+  N_bl : wf_state s = RUNNING -> backlog s = [];
+  N_states : forall tid r, nth_error (tasks s) tid = Some r ->
      is_completed (t_state r) = true \/ t_state r = IDLE \/ t_state r = RUNNING;
-  W_idle : forall tid r, X <> Some tid -> nth_error (tasks s) tid = Some r -> t_state r = IDLE ->
+  N_idle : forall tid r, X <> Some tid -> nth_error (tasks s) tid = Some r -> t_state r = IDLE ->
      start_pending (pend s) ops tid;
-  W_running : forall tid r, X <> Some tid -> nth_error (tasks s) tid = Some r -> t_state r = RUNNING ->
+  N_running : forall tid r, X <> Some tid -> nth_error (tasks s) tid = Some r -> t_state r = RUNNING ->
      exists aid a, nth_error (acts s) aid = Some a /\ a_task a = tid /\ is_completed (a_state a) = false /\
                    act_pending (pend s) ops aid;
-  W_acts : forall aid a, nth_error (acts s) aid = Some a -> a_task a < length (tasks s);
-  W_items : forallb plain_item (pend s) = true;
-  W_ops : forallb plain_op ops = true;
-  W_check : wf_state s = RUNNING -> incomplete_task s \/ check_pending (pend s) ops
+  N_acts : forall aid a, nth_error (acts s) aid = Some a -> a_task a < length (tasks s);
+  N_items : forallb plain_item (pend s) = true;
+  N_ops : forallb plain_op ops = true
 }.
+
+Definition Wk (X : option nat) (s : st) (ops : list op) : Prop :=
+  WkNC X s ops /\ (wf_state s = RUNNING -> chk s (pend s) ops).
 
 Lemma op_avail_mono p ops p' ops' o :
   (forall x, In x p -> In x p') -> (forall x, In x ops -> op_avail p' ops' x) ->
@@ -400,7 +597,10 @@ Qed.
 Lemma start_pending_mono p ops p' ops' tid :
   (forall x, In x p -> In x p') -> (forall x, In x ops -> op_avail p' ops' x) ->
   start_pending p ops tid -> start_pending p' ops' tid.
-Proof. intros Hp Ho [H|H]; [left; apply Hp, H|right; eapply op_avail_mono; eassumption]. Qed.
+Proof.
+  intros Hp Ho [f [r [x [Hs [H|H]]]]]; exists f, r, x; (split; [exact Hs|]);
+    [left; apply Hp, H|right; eapply op_avail_mono; eassumption].
+Qed.
 
 Lemma act_pending_mono p ops p' ops' aid :
   (forall x, In x p -> In x p') -> (forall x, In x ops -> op_avail p' ops' x) ->
@@ -410,21 +610,34 @@ Proof.
                                right; right; eapply op_avail_mono; eassumption].
 Qed.
 
+Lemma chk_mono s s' p ops p' ops' :
+  (incomplete_task s -> incomplete_task s') -> length (tasks s) <= length (tasks s') ->
+  (forall x, In x p -> In x p') -> (forall x, In x ops -> op_avail p' ops' x) ->
+  chk s p ops -> chk s' p' ops'.
+Proof.
+  intros Hi Hl Hp Ho [H|[H|[tid [Ht H]]]]; [left; apply Hi, H|right; left; eapply op_avail_mono; eassumption|].
+  right. right. exists tid. split; [lia|]. destruct H as [H|H]; [left; apply Hp, H|right; eapply op_avail_mono; eassumption].
+Qed.
+
+Lemma incomplete_task_frame s s' : tasks s' = tasks s -> incomplete_task s -> incomplete_task s'.
+Proof. unfold incomplete_task. intros ->. auto. Qed.
+
 (* committing a transaction: its operations become one pending queue *)
 Lemma commit_W s ops : Wk None s ops -> Wk None (commit (s, ops)) [].
 Proof.
-  intros [H1 H2 H3 H4 H5 H6 H7 H8 H9 H10 H11]. unfold commit. cbn [fst snd].
-  destruct ops as [|o l] eqn:Eo; [constructor; assumption|]. rewrite <- Eo in *. clear Eo o l.
+  intros [[H1 H2 H3 H4 H5 H6 H7 H8 H9 H10] H11]. unfold commit. cbn [fst snd].
+  destruct ops as [|o l] eqn:Eo; [split; [constructor; assumption|exact H11]|]. rewrite <- Eo in *. clear Eo o l.
   assert (Hp : forall x, In x (pend s) -> In x (pend s ++ [IPtq ops])) by (intros; apply in_or_app; auto).
   assert (Ho : forall x, In x ops -> op_avail (pend s ++ [IPtq ops]) [] x).
   { intros x Hx. right. exists ops. split; [apply in_or_app; right; left; reflexivity|exact Hx]. }
-  constructor; cbn [add_pend wf_created wf_state backlog tasks acts pend]; try assumption.
-  - intros tid r Hn Hr Hi. eapply start_pending_mono; [exact Hp|exact Ho|eapply H6; eassumption].
-  - intros tid r Hn Hr Hi. destruct (H7 tid r Hn Hr Hi) as [aid [a [A1 [A2 [A3 A4]]]]].
-    exists aid, a. repeat split; auto. eapply act_pending_mono; [exact Hp|exact Ho|exact A4].
-  - rewrite forallb_app, H9. simpl. rewrite H10. reflexivity.
-  - reflexivity.
-  - intros Hw. destruct (H11 Hw) as [H|H]; [left; exact H|right]. eapply op_avail_mono; [exact Hp|exact Ho|exact H].
+  split.
+  - constructor; cbn [add_pend wf_created wf_state backlog tasks acts pend]; try assumption.
+    + intros tid r Hn Hr Hi. eapply start_pending_mono; [exact Hp|exact Ho|eapply H6; eassumption].
+    + intros tid r Hn Hr Hi. destruct (H7 tid r Hn Hr Hi) as [aid [a [A1 [A2 [A3 A4]]]]].
+      exists aid, a. repeat split; auto. eapply act_pending_mono; [exact Hp|exact Ho|exact A4].
+    + rewrite forallb_app, H9. simpl. rewrite H10. reflexivity.
+    + reflexivity.
+  - cbn [add_pend wf_state pend]. intros Hw. eapply chk_mono; [| |exact Hp|exact Ho|exact (H11 Hw)]; auto.
 Qed.
 
 (* ------------------------------------------------------------ the completion check *)
@@ -474,59 +687,70 @@ Proof. intros [[H|H]|H]; [left; symmetry; exact H|right; left; exact H|right; ri
 Lemma op_avail_pend_mono p p' ops x : (forall i, In i p -> In i p') -> op_avail p ops x -> op_avail p' ops x.
 Proof. intros Hp. apply op_avail_mono; [exact Hp|intros y Hy; left; exact Hy]. Qed.
 
-Lemma incomplete_task_frame s s' : tasks s' = tasks s -> incomplete_task s -> incomplete_task s'.
-Proof. unfold incomplete_task. intros ->. auto. Qed.
-
 Lemma run_op_W sp s o ops : Wk None s (o :: ops) -> Wk None (run_ops sp s [o]) ops.
 Proof.
-  intros [H1 H2 H3 H4 H5 H6 H7 H8 H9 H10 H11]. simpl in H10. apply andb_true_iff in H10. destruct H10 as [Ho H10].
+  intros [[H1 H2 H3 H4 H5 H6 H7 H8 H9 H10] H11]. simpl in H10. apply andb_true_iff in H10. destruct H10 as [Ho H10].
   cbn [run_ops].
   destruct o as [tid f r x|aid| |tid]; simpl in Ho; try discriminate.
-  - destruct f; [|discriminate]. destruct r; [discriminate|]. destruct x; [discriminate|].
-    set (it := IStartTask tid true false false).
+  - set (it := IStartTask tid f r x).
     assert (Hp : forall i, In i (pend s) -> In i (pend s ++ [it])) by (intros; apply in_or_app; auto).
-    constructor; cbn [add_pend wf_created wf_state backlog tasks acts pend]; try assumption.
-    + intros tid' r Hn Hr Hi. destruct (H6 tid' r Hn Hr Hi) as [H|H]; [left; apply Hp, H|].
-      apply op_avail_cons in H. destruct H as [H|H].
-      * left. inversion H; subst. apply in_or_app. right. left. reflexivity.
-      * right. eapply op_avail_pend_mono; [exact Hp|exact H].
-    + intros tid' r Hn Hr Hi. destruct (H7 tid' r Hn Hr Hi) as [aid [a [A1 [A2 [A3 A4]]]]].
-      exists aid, a. repeat split; auto. destruct A4 as [A|[[q A]|A]].
-      * left. apply Hp, A.
-      * right. left. exists q. apply Hp, A.
-      * right. right. apply op_avail_cons in A. destruct A as [A|A]; [discriminate|].
-        eapply op_avail_pend_mono; [exact Hp|exact A].
-    + rewrite forallb_app, H9. reflexivity.
-    + intros Hw. destruct (H11 Hw) as [H|H]; [left; exact H|right].
-      apply op_avail_cons in H. destruct H as [H|H]; [discriminate|]. eapply op_avail_pend_mono; [exact Hp|exact H].
+    assert (Hlast : In it (pend s ++ [it])) by (apply in_or_app; right; left; reflexivity).
+    split.
+    + constructor; cbn [add_pend wf_created wf_state backlog tasks acts pend]; try assumption.
+      * intros tid' r' Hn Hr Hi. destruct (H6 tid' r' Hn Hr Hi) as [f' [r'' [x' [Hs [H|H]]]]]; exists f', r'', x'; (split; [exact Hs|]).
+        -- left. apply Hp, H.
+        -- apply op_avail_cons in H. destruct H as [H|H].
+           ++ left. injection H as -> -> -> ->. exact Hlast.
+           ++ right. eapply op_avail_pend_mono; [exact Hp|exact H].
+      * intros tid' r' Hn Hr Hi. destruct (H7 tid' r' Hn Hr Hi) as [aid [a [A1 [A2 [A3 A4]]]]].
+        exists aid, a. repeat split; auto. destruct A4 as [A|[[q A]|A]].
+        -- left. apply Hp, A.
+        -- right. left. exists q. apply Hp, A.
+        -- right. right. apply op_avail_cons in A. destruct A as [A|A]; [discriminate|].
+           eapply op_avail_pend_mono; [exact Hp|exact A].
+      * rewrite forallb_app, H9. simpl. rewrite Ho. reflexivity.
+    + cbn [add_pend wf_state pend tasks]. intros Hw. destruct (H11 Hw) as [H|[H|[tid' [Ht H]]]].
+      * left. exact H.
+      * right. left. apply op_avail_cons in H. destruct H as [H|H]; [discriminate|]. eapply op_avail_pend_mono; [exact Hp|exact H].
+      * right. right. exists tid'. split; [exact Ht|]. destruct H as [H|H]; [left; apply Hp, H|].
+        apply op_avail_cons in H. destruct H as [H|H].
+        -- left. injection H as -> -> -> ->. exact Hlast.
+        -- right. eapply op_avail_pend_mono; [exact Hp|exact H].
   - set (it := IExec aid).
     assert (Hp : forall i, In i (pend s) -> In i (pend s ++ [it])) by (intros; apply in_or_app; auto).
-    constructor; cbn [add_pend wf_created wf_state backlog tasks acts pend]; try assumption.
-    + intros tid' r Hn Hr Hi. destruct (H6 tid' r Hn Hr Hi) as [H|H]; [left; apply Hp, H|].
-      apply op_avail_cons in H. destruct H as [H|H]; [discriminate|].
-      right. eapply op_avail_pend_mono; [exact Hp|exact H].
-    + intros tid' r Hn Hr Hi. destruct (H7 tid' r Hn Hr Hi) as [aid' [a [A1 [A2 [A3 A4]]]]].
-      exists aid', a. repeat split; auto. destruct A4 as [A|[[q A]|A]].
-      * left. apply Hp, A.
-      * right. left. exists q. apply Hp, A.
-      * apply op_avail_cons in A. destruct A as [A|A].
-        -- left. inversion A; subst. apply in_or_app. right. left. reflexivity.
-        -- right. right. eapply op_avail_pend_mono; [exact Hp|exact A].
-    + rewrite forallb_app, H9. reflexivity.
-    + intros Hw. destruct (H11 Hw) as [H|H]; [left; exact H|right].
-      apply op_avail_cons in H. destruct H as [H|H]; [discriminate|]. eapply op_avail_pend_mono; [exact Hp|exact H].
+    split.
+    + constructor; cbn [add_pend wf_created wf_state backlog tasks acts pend]; try assumption.
+      * intros tid' r Hn Hr Hi. destruct (H6 tid' r Hn Hr Hi) as [f' [r'' [x' [Hs [H|H]]]]]; exists f', r'', x'; (split; [exact Hs|]).
+        -- left. apply Hp, H.
+        -- apply op_avail_cons in H. destruct H as [H|H]; [discriminate|].
+           right. eapply op_avail_pend_mono; [exact Hp|exact H].
+      * intros tid' r Hn Hr Hi. destruct (H7 tid' r Hn Hr Hi) as [aid' [a [A1 [A2 [A3 A4]]]]].
+        exists aid', a. repeat split; auto. destruct A4 as [A|[[q A]|A]].
+        -- left. apply Hp, A.
+        -- right. left. exists q. apply Hp, A.
+        -- apply op_avail_cons in A. destruct A as [A|A].
+           ++ left. injection A as ->. apply in_or_app. right. left. reflexivity.
+           ++ right. right. eapply op_avail_pend_mono; [exact Hp|exact A].
+      * rewrite forallb_app, H9. reflexivity.
+    + cbn [add_pend wf_state pend tasks]. intros Hw. destruct (H11 Hw) as [H|[H|[tid' [Ht H]]]].
+      * left. exact H.
+      * right. left. apply op_avail_cons in H. destruct H as [H|H]; [discriminate|]. eapply op_avail_pend_mono; [exact Hp|exact H].
+      * right. right. exists tid'. split; [exact Ht|]. destruct H as [H|H]; [left; apply Hp, H|].
+        apply op_avail_cons in H. destruct H as [H|H]; [discriminate|]. right. eapply op_avail_pend_mono; [exact Hp|exact H].
   - destruct (cac_spec s H2) as [s1 [E1 [Hh [Hl1 [Hr1 Hq1]]]]]. rewrite E1.
     assert (Hf : tasks s1 = tasks s /\ acts s1 = acts s /\ pend s1 = pend s /\ backlog s1 = backlog s /\
                  wf_created s1 = wf_created s).
     { destruct Hh as [->|[y ->]]; repeat split; reflexivity. }
     destruct Hf as [F1 [F2 [F3 [F4 F5]]]].
-    constructor; rewrite ?F1, ?F2, ?F3, ?F4, ?F5; try assumption.
-    + intros Hw. apply H4. apply (Hr1 Hw).
-    + intros tid' r Hn Hr Hi. destruct (H6 tid' r Hn Hr Hi) as [H|H]; [left; exact H|].
-      apply op_avail_cons in H. destruct H as [H|H]; [discriminate|]. right. exact H.
-    + intros tid' r Hn Hr Hi. destruct (H7 tid' r Hn Hr Hi) as [aid' [a [A1 [A2 [A3 A4]]]]].
-      exists aid', a. repeat split; auto. destruct A4 as [A|[A|A]]; [left; exact A|right; left; exact A|].
-      apply op_avail_cons in A. destruct A as [A|A]; [discriminate|]. right. right. exact A.
+    split.
+    + constructor; rewrite ?F1, ?F2, ?F3, ?F4, ?F5; try assumption.
+      * intros Hw. apply H4. apply (Hr1 Hw).
+      * intros tid' r Hn Hr Hi. destruct (H6 tid' r Hn Hr Hi) as [f' [r'' [x' [Hs [H|H]]]]]; exists f', r'', x'; (split; [exact Hs|]).
+        -- left. exact H.
+        -- apply op_avail_cons in H. destruct H as [H|H]; [discriminate|]. right. exact H.
+      * intros tid' r Hn Hr Hi. destruct (H7 tid' r Hn Hr Hi) as [aid' [a [A1 [A2 [A3 A4]]]]].
+        exists aid', a. repeat split; auto. destruct A4 as [A|[A|A]]; [left; exact A|right; left; exact A|].
+        apply op_avail_cons in A. destruct A as [A|A]; [discriminate|]. right. right. exact A.
     + intros Hw. left. eapply incomplete_task_frame; [exact F1|apply (Hr1 Hw)].
 Qed.
 
@@ -579,21 +803,24 @@ Lemma take_ptq_W s ops rest :
   In (IPtq ops) (pend s) -> (forall x, In x (pend s) -> x = IPtq ops \/ In x rest) -> (forall x, In x rest -> In x (pend s)) ->
   Wk None s [] -> Wk None (set_pend s rest) ops.
 Proof.
-  intros Hin Hsplit Hsub [H1 H2 H3 H4 H5 H6 H7 H8 H9 H10 H11].
+  intros Hin Hsplit Hsub [[H1 H2 H3 H4 H5 H6 H7 H8 H9 H10] H11].
   assert (Hoa : forall o, op_avail (pend s) [] o -> op_avail rest ops o).
   { intros o [[]|[q [Q1 Q2]]]. destruct (Hsplit _ Q1) as [E|E]; [inversion E; subst; left; exact Q2|right; exists q; split; assumption]. }
   assert (Hit : forall i, (forall q, i <> IPtq q) -> In i (pend s) -> In i rest).
   { intros i Hne Hi. destruct (Hsplit _ Hi) as [E|E]; [exfalso; apply (Hne ops), E|exact E]. }
-  constructor; cbn [set_pend wf_created wf_state backlog tasks acts pend]; try assumption.
-  - intros tid r Hn Hr Hi. destruct (H6 tid r Hn Hr Hi) as [H|H]; [left; apply Hit; [intros q; discriminate|exact H]|right; apply Hoa, H].
-  - intros tid r Hn Hr Hi. destruct (H7 tid r Hn Hr Hi) as [aid [a [A1 [A2 [A3 A4]]]]].
-    exists aid, a. repeat split; auto. destruct A4 as [A|[[q A]|A]].
-    + left. apply Hit; [intros q; discriminate|exact A].
-    + right. left. exists q. apply Hit; [intros q'; discriminate|exact A].
-    + right. right. apply Hoa, A.
-  - eapply forallb_sub; [exact Hsub|exact H9].
-  - rewrite forallb_forall in H9. apply (H9 _ Hin).
-  - intros Hw. destruct (H11 Hw) as [H|H]; [left; exact H|right; apply Hoa, H].
+  split.
+  - constructor; cbn [set_pend wf_created wf_state backlog tasks acts pend]; try assumption.
+    + intros tid r Hn Hr Hi. destruct (H6 tid r Hn Hr Hi) as [f' [r'' [x' [Hs [H|H]]]]]; exists f', r'', x'; (split; [exact Hs|]);
+        [left; apply Hit; [intros q; discriminate|exact H]|right; apply Hoa, H].
+    + intros tid r Hn Hr Hi. destruct (H7 tid r Hn Hr Hi) as [aid [a [A1 [A2 [A3 A4]]]]].
+      exists aid, a. repeat split; auto. destruct A4 as [A|[[q A]|A]].
+      * left. apply Hit; [intros q; discriminate|exact A].
+      * right. left. exists q. apply Hit; [intros q'; discriminate|exact A].
+      * right. right. apply Hoa, A.
+    + eapply forallb_sub; [exact Hsub|exact H9].
+    + rewrite forallb_forall in H9. apply (H9 _ Hin).
+  - cbn [set_pend wf_state pend tasks]. intros Hw. destruct (H11 Hw) as [H|[H|[tid [Ht H]]]]; [left; exact H|right; left; apply Hoa, H|].
+    right. right. exists tid. split; [exact Ht|]. destruct H as [H|H]; [left; apply Hit; [intros q; discriminate|exact H]|right; apply Hoa, H].
 Qed.
 
 (* a message taken off the list: everything except what that very message stood for is kept *)
@@ -605,23 +832,24 @@ Proof.
   destruct (Hsplit _ Q1) as [E|E]; [exfalso; apply (Hne q); symmetry; exact E|exact E].
 Qed.
 
-Lemma drop_item_W X' s it rest :
+Lemma drop_item_NC X' s it rest :
   (forall q, it <> IPtq q) ->
   (forall x, In x (pend s) -> x = it \/ In x rest) -> (forall x, In x rest -> In x (pend s)) ->
-  (forall tid r, X' <> Some tid -> nth_error (tasks s) tid = Some r -> t_state r = IDLE ->
-     it <> IStartTask tid true false false) ->
+  (forall tid r f r' x, X' <> Some tid -> nth_error (tasks s) tid = Some r -> t_state r = IDLE ->
+     it <> IStartTask tid f r' x) ->
   (forall aid a, nth_error (acts s) aid = Some a -> X' <> Some (a_task a) -> is_completed (a_state a) = false ->
      it <> IExec aid /\ forall r, it <> IResult aid r) ->
-  Wk None s [] -> Wk X' (set_pend s rest) [].
+  WkNC None s [] -> WkNC X' (set_pend s rest) [].
 Proof.
-  intros Hne Hsplit Hsub Hst Hact [H1 H2 H3 H4 H5 H6 H7 H8 H9 H10 H11].
+  intros Hne Hsplit Hsub Hst Hact [H1 H2 H3 H4 H5 H6 H7 H8 H9 H10].
   assert (Hoa : forall o, op_avail (pend s) [] o -> op_avail rest [] o) by (intros o; apply (op_avail_rest s it); assumption).
   assert (Hit : forall i, i <> it -> In i (pend s) -> In i rest).
   { intros i Hi Hin. destruct (Hsplit _ Hin) as [E|E]; [contradiction|exact E]. }
   assert (Hnone : forall n : nat, None <> Some n) by (intros; discriminate).
   constructor; cbn [set_pend wf_created wf_state backlog tasks acts pend]; try assumption.
-  - intros tid r Hx Hn Hi. destruct (H6 tid r (Hnone tid) Hn Hi) as [H|H]; [left|right; apply Hoa, H].
-    apply Hit; [|exact H]. intros E. apply (Hst tid r Hx Hn Hi). symmetry. exact E.
+  - intros tid r Hx Hn Hi. destruct (H6 tid r (Hnone tid) Hn Hi) as [f' [r'' [x' [Hs [H|H]]]]]; exists f', r'', x'; (split; [exact Hs|]);
+      [left|right; apply Hoa, H].
+    apply Hit; [|exact H]. intros E. apply (Hst tid r f' r'' x' Hx Hn Hi). symmetry. exact E.
   - intros tid r Hx Hn Hi. destruct (H7 tid r (Hnone tid) Hn Hi) as [aid [a [A1 [A2 [A3 A4]]]]].
     exists aid, a. repeat split; auto.
     assert (Hxa : X' <> Some (a_task a)) by (rewrite A2; exact Hx).
@@ -631,12 +859,22 @@ Proof.
     + right. left. exists q. apply Hit; [intros E; apply (B2 q); symmetry; exact E|exact A].
     + right. right. apply Hoa, A.
   - eapply forallb_sub; [exact Hsub|exact H9].
-  - intros Hw. destruct (H11 Hw) as [H|H]; [left; exact H|right; apply Hoa, H].
 Qed.
 
-Lemma Wk_weaken X s ops : Wk None s ops -> Wk X s ops.
+(* the check clause survives the removal of any message that is not a resume-issued start request *)
+Lemma chk_drop s it rest :
+  (forall q, it <> IPtq q) -> (forall x, In x (pend s) -> x = it \/ In x rest) ->
+  (forall tid, tid < length (tasks s) -> it <> IStartTask tid false false true) ->
+  chk s (pend s) [] -> chk (set_pend s rest) rest [].
 Proof.
-  intros [H1 H2 H3 H4 H5 H6 H7 H8 H9 H10 H11].
+  intros Hne Hsplit Hrs [H|[H|[tid [Ht H]]]]; [left; exact H|right; left; eapply op_avail_rest; eassumption|].
+  right. right. exists tid. split; [exact Ht|]. destruct H as [H|H]; [left|right; eapply op_avail_rest; eassumption].
+  destruct (Hsplit _ H) as [E|E]; [exfalso; apply (Hrs tid Ht); symmetry; exact E|exact E].
+Qed.
+
+Lemma NC_weaken X s ops : WkNC None s ops -> WkNC X s ops.
+Proof.
+  intros [H1 H2 H3 H4 H5 H6 H7 H8 H9 H10].
   assert (Hnone : forall n : nat, None <> Some n) by (intros; discriminate).
   constructor; try assumption.
   - intros tid r _. apply H6, Hnone.
@@ -672,12 +910,13 @@ Proof.
   unfold affected. rewrite nojoin_affected_walk by exact Hn. simpl. rewrite app_nil_r. destruct t; reflexivity.
 Qed.
 
+
 (* ------------------------------------------------------------ start_task for an IDLE task *)
-Lemma start_new_W sp s tid r : nojoin sp -> Wk (Some tid) s [] ->
+Lemma start_new_W sp s tid r : nojoin sp -> WkNC (Some tid) s [] ->
   nth_error (tasks s) tid = Some r -> t_state r = IDLE ->
   Wk None (commit (check_affected sp (schedule_action (task_set_state s tid RUNNING, []) tid) tid)) [].
 Proof.
-  intros Hnj [H1 H2 H3 H4 H5 H6 H7 H8 H9 H10 H11] Hn Hi.
+  intros Hnj [H1 H2 H3 H4 H5 H6 H7 H8 H9 H10] Hn Hi.
   rewrite nojoin_check_affected by exact Hnj.
   assert (Hlt : tid < length (tasks s)) by (apply nth_error_Some; congruence).
   unfold schedule_action, task_set_state. cbn [fst snd app].
@@ -689,54 +928,32 @@ Proof.
   { unfold aid. rewrite nth_error_app2 by lia. rewrite Nat.sub_diag. reflexivity. }
   assert (Hold : forall k b, nth_error (acts s) k = Some b -> nth_error (acts s ++ [a]) k = Some b).
   { intros k b Hk. rewrite nth_error_app1; [exact Hk|]. apply nth_error_Some. congruence. }
-  constructor; cbn [add_act upd_task wf_created wf_state backlog tasks acts pend]; try assumption.
-  - intros k x Hk. destruct (Nat.eq_dec k tid) as [->|Hne].
-    + rewrite nth_error_set_nth_same in Hk by exact Hlt. inversion Hk; subst. right. right. reflexivity.
-    + rewrite nth_error_set_nth_other in Hk by exact Hne. eapply H5; exact Hk.
-  - intros k x _ Hk Hxi. destruct (Nat.eq_dec k tid) as [->|Hne].
-    + rewrite nth_error_set_nth_same in Hk by exact Hlt. inversion Hk; subst. discriminate Hxi.
-    + rewrite nth_error_set_nth_other in Hk by exact Hne.
-      assert (Hx : Some tid <> Some k) by congruence.
-      eapply start_pending_mono; [intros y Hy; exact Hy| |exact (H6 k x Hx Hk Hxi)]. intros y [].
-  - intros k x _ Hk Hxr. destruct (Nat.eq_dec k tid) as [->|Hne].
-    + exists aid, a. repeat split; auto. right. right. left. left. reflexivity.
-    + rewrite nth_error_set_nth_other in Hk by exact Hne.
-      assert (Hx : Some tid <> Some k) by congruence.
-      destruct (H7 k x Hx Hk Hxr) as [aid' [b [A1 [A2 [A3 A4]]]]].
-      exists aid', b. repeat split; auto. eapply act_pending_mono; [intros y Hy; exact Hy| |exact A4]. intros y [].
-  - intros k b Hk. rewrite set_nth_length.
-    destruct (Nat.lt_ge_cases k (length (acts s))) as [Hl|Hl].
-    + rewrite nth_error_app1 in Hk by exact Hl. eapply H8; exact Hk.
-    + rewrite nth_error_app2 in Hk by exact Hl. destruct (k - length (acts s)) as [|m]; simpl in Hk.
-      * inversion Hk; subst. exact Hlt.
-      * destruct m; discriminate.
+  split.
+  - constructor; cbn [add_act upd_task wf_created wf_state backlog tasks acts pend]; rewrite ?set_nth_length; try assumption.
+    + intros k x Hk. destruct (Nat.eq_dec k tid) as [->|Hne].
+      * rewrite nth_error_set_nth_same in Hk by exact Hlt. inversion Hk; subst. right. right. reflexivity.
+      * rewrite nth_error_set_nth_other in Hk by exact Hne. eapply H5; exact Hk.
+    + intros k x _ Hk Hxi. destruct (Nat.eq_dec k tid) as [->|Hne].
+      * rewrite nth_error_set_nth_same in Hk by exact Hlt. inversion Hk; subst. discriminate Hxi.
+      * rewrite nth_error_set_nth_other in Hk by exact Hne.
+        assert (Hx : Some tid <> Some k) by congruence.
+        eapply start_pending_mono; [intros y Hy; exact Hy| |exact (H6 k x Hx Hk Hxi)]. intros y [].
+    + intros k x _ Hk Hxr. destruct (Nat.eq_dec k tid) as [->|Hne].
+      * exists aid, a. repeat split; auto. right. right. left. left. reflexivity.
+      * rewrite nth_error_set_nth_other in Hk by exact Hne.
+        assert (Hx : Some tid <> Some k) by congruence.
+        destruct (H7 k x Hx Hk Hxr) as [aid' [b [A1 [A2 [A3 A4]]]]].
+        exists aid', b. repeat split; auto. eapply act_pending_mono; [intros y Hy; exact Hy| |exact A4]. intros y [].
+    + intros k b Hk.
+      destruct (Nat.lt_ge_cases k (length (acts s))) as [Hl|Hl].
+      * rewrite nth_error_app1 in Hk by exact Hl. eapply H8; exact Hk.
+      * rewrite nth_error_app2 in Hk by exact Hl. destruct (k - length (acts s)) as [|m]; simpl in Hk.
+        -- inversion Hk; subst. exact Hlt.
+        -- destruct m; discriminate.
   - intros _. left. exists tid, r'. split; [apply nth_error_set_nth_same; exact Hlt|reflexivity].
 Qed.
 
-(* ------------------------------------------------------------ the invariant without the check clause *)
-Record WkNC (X : option nat) (s : st) (ops : list op) : Prop := {
-  N_created : wf_created s = true;
-  N_live : live_wf_state (wf_state s) = true;
-  N_okb : okcs (backlog s);
-  N_bl : wf_state s = RUNNING -> backlog s = [];
-  N_states : forall tid r, nth_error (tasks s) tid = Some r ->
-     is_completed (t_state r) = true \/ t_state r = IDLE \/ t_state r = RUNNING;
-  N_idle : forall tid r, X <> Some tid -> nth_error (tasks s) tid = Some r -> t_state r = IDLE ->
-     start_pending (pend s) ops tid;
-  N_running : forall tid r, X <> Some tid -> nth_error (tasks s) tid = Some r -> t_state r = RUNNING ->
-     exists aid a, nth_error (acts s) aid = Some a /\ a_task a = tid /\ is_completed (a_state a) = false /\
-                   act_pending (pend s) ops aid;
-  N_acts : forall aid a, nth_error (acts s) aid = Some a -> a_task a < length (tasks s);
-  N_items : forallb plain_item (pend s) = true;
-  N_ops : forallb plain_op ops = true
-}.
-
-Lemma Wk_NC X s ops : Wk X s ops -> WkNC X s ops.
-Proof. intros [H1 H2 H3 H4 H5 H6 H7 H8 H9 H10 H11]. constructor; assumption. Qed.
-
-Lemma NC_Wk X s ops : WkNC X s ops -> (wf_state s = RUNNING -> incomplete_task s \/ check_pending (pend s) ops) -> Wk X s ops.
-Proof. intros [H1 H2 H3 H4 H5 H6 H7 H8 H9 H10] H11. constructor; assumption. Qed.
-
+(* ------------------------------------------------------------ one task changes state *)
 Definition same_but (tid : nat) (x : state) (s s' : st) : Prop :=
   wf_created s' = wf_created s /\ wf_state s' = wf_state s /\ backlog s' = backlog s /\ acts s' = acts s /\
   pend s' = pend s /\ length (tasks s') = length (tasks s) /\
@@ -788,9 +1005,18 @@ Proof.
 Qed.
 
 (* dispatching ok commands keeps the invariant: new tasks are IDLE with a registered start *)
-Lemma disp_NC X t t' cmds : disp_spec t t' cmds -> WkNC X (fst t) (snd t) -> WkNC X (fst t') (snd t').
+Lemma NC_clear_backlog X s ops : WkNC X s ops -> WkNC X (set_backlog s []) ops.
+Proof.
+  intros [H1 H2 H3 H4 H5 H6 H7 H8 H9 H10].
+  constructor; cbn [set_backlog wf_created wf_state backlog tasks acts pend]; try assumption; [constructor|reflexivity].
+Qed.
+
+(* (stated from the backlog-cleared state: dispatch starts by taking the backlog, and on resume the
+   workflow is RUNNING again with a non-empty backlog) *)
+Lemma disp_NC X t t' cmds : disp_spec t t' cmds -> WkNC X (set_backlog (fst t) []) (snd t) -> WkNC X (fst t') (snd t').
 Proof.
   intros [Dp Da Dc Dl Dob Dbl Dn Dr Dq] [H1 H2 H3 H4 H5 H6 H7 H8 H9 H10].
+  cbn [set_backlog wf_created wf_state backlog tasks acts pend] in H1, H2, H3, H4, H5, H6, H7, H8, H9.
   destruct Dn as [nt [more [T1 [T2 [T3 [T4 [T5 _]]]]]]].
   assert (Hp : forall i, In i (pend (fst t)) -> In i (pend (fst t))) by auto.
   assert (Ho : forall o, In o (snd t) -> op_avail (pend (fst t)) (snd t ++ more) o) by (intros o Ho; left; apply in_or_app; left; exact Ho).
@@ -803,11 +1029,11 @@ Proof.
       + rewrite Forall_forall in T2. apply T2. eapply nth_error_In; exact Hk.
       + assert (Hlt : k - length (tasks (fst t)) < length nt) by (apply nth_error_Some; congruence).
         specialize (T5 _ Hlt). replace (length (tasks (fst t)) + (k - length (tasks (fst t)))) with k in T5 by lia. exact T5. }
-  constructor; rewrite ?Dp, ?Da, ?Dc, ?T1, ?T3; try assumption.
+  constructor; try assumption; rewrite ?Dp, ?Da, ?Dc, ?T1, ?T3; try assumption.
   - intros k r Hk. destruct (Hnew k r Hk) as [Hold|[Hi _]]; [eapply H5; exact Hold|right; left; exact Hi].
   - intros k r Hx Hk Hi. destruct (Hnew k r Hk) as [Hold|[_ Hin]].
     + eapply start_pending_mono; [exact Hp|exact Ho|exact (H6 k r Hx Hold Hi)].
-    + right. left. apply in_or_app. right. exact Hin.
+    + exists true, false, false. split; [reflexivity|]. right. left. apply in_or_app. right. exact Hin.
   - intros k r Hx Hk Hi. destruct (Hnew k r Hk) as [Hold|[Hidle _]]; [|congruence].
     destruct (H7 k r Hx Hold Hi) as [aid [a [A1 [A2 [A3 A4]]]]]. exists aid, a. repeat split; auto.
     eapply act_pending_mono; [exact Hp|exact Ho|exact A4].
@@ -861,6 +1087,11 @@ Qed.
 Lemma state_eqb_PAUSED y : state_eqb y PAUSED = true -> y = PAUSED.
 Proof. destruct y; simpl; intros H; try discriminate; reflexivity. Qed.
 
+Lemma map_to_cmd_in_range sp by_tid nx n : in_range n (map (to_cmd sp by_tid) nx).
+Proof.
+  intros tid a b Hin. apply in_map_iff in Hin. destruct Hin as [p [Hp _]]. unfold to_cmd in Hp. destruct (fst p); discriminate.
+Qed.
+
 Section Complete.
 Variable sp : spec.
 Hypothesis Hnj : nojoin sp.
@@ -870,7 +1101,7 @@ Lemma complete_pre_shape t tid x : is_skipped x = false ->
   | PreIgnored t1 => t1 = t /\ is_completed (t_state (get_task (fst t) tid)) = true
   | PreRaised t1 => same_but tid x (fst t) (fst t1) /\ snd t1 = snd t
   | PreCmds t1 cmds =>
-      same_but tid x (fst t) (fst t1) /\ okcs cmds /\ length cmds <= spec_size sp /\
+      same_but tid x (fst t) (fst t1) /\ okcs cmds /\ in_range 0 cmds /\ length cmds <= spec_size sp /\
       ((wf_state (fst t) = PAUSED /\ cmds = [] /\ snd t1 = snd t) \/
        (wf_state (fst t) <> PAUSED /\
         ((existsb is_run cmds = false /\ snd t1 = snd t ++ [OCheck]) \/ (existsb is_run cmds = true /\ snd t1 = snd t))))
@@ -893,13 +1124,14 @@ Proof.
   assert (S2 : same_but tid x (fst t) (upd_task s1 tid r2)) by (apply same_but_upd; [left; exists x; exact S1|exact Hr2]).
   change (wf_state (upd_task s1 tid r2)) with (wf_state (fst t)).
   destruct (is_paused (wf_state (fst t))) eqn:Ep.
-  - split; [exact S2|]. split; [constructor|]. split; [simpl; lia|]. left.
+  - split; [exact S2|]. split; [constructor|]. split; [intros ? ? ? []|]. split; [simpl; lia|]. left.
     split; [apply state_eqb_PAUSED; exact Ep|]. split; reflexivity.
   - split; [apply same_but_upd; [left; exists x; exact S2|reflexivity]|].
-    split; [apply Forall_okc_map, Hnj|]. split; [rewrite map_length; exact Hlen|]. right.
+    split; [apply Forall_okc_map, Hnj|]. split; [apply map_to_cmd_in_range|]. split; [rewrite map_length; exact Hlen|]. right.
     split; [intros E; rewrite E in Ep; discriminate|].
     rewrite run_iff_names. destruct (next_names nx); [left|right]; split; reflexivity.
 Qed.
+
 
 Lemma hdr_NC X s s2 ops : WkNC X s ops -> hdr_only s s2 -> live_wf_state (wf_state s2) = true ->
   (wf_state s2 = RUNNING -> wf_state s = RUNNING) -> WkNC X s2 ops.
@@ -937,7 +1169,7 @@ Proof.
   assert (N1 : WkNC None s1 ops).
   { eapply same_but_NC; [exact Hw|exact S1|reflexivity|auto|apply Hw]. }
   destruct (fail_live s1 (N_live _ _ _ N1)) as [s2 [E2 [Hh [Hl Hnr]]]]. rewrite E2.
-  apply NC_Wk; [eapply hdr_NC; [exact N1|exact Hh|exact Hl|intros; contradiction]|intros; contradiction].
+  split; [eapply hdr_NC; [exact N1|exact Hh|exact Hl|intros; contradiction]|intros; contradiction].
 Qed.
 
 Lemma complete_task_W f s ops tid x :
@@ -948,15 +1180,13 @@ Lemma complete_task_W f s ops tid x :
   | (t1, FForce) => Wk None (force_fail (fst t1) tid) (snd t1)
   end.
 Proof.
-  intros Hw Hx Hsk Hf. rewrite complete_task_eq. destruct f as [|f]; [lia|].
+  intros [Hn Hchk] Hx Hsk Hf. rewrite complete_task_eq. destruct f as [|f]; [lia|].
   pose proof (complete_pre_shape (s, ops) tid x Hsk) as Hsh.
-  pose proof (Wk_NC _ _ _ Hw) as Hn.
   destruct (complete_pre sp (s, ops) tid x) as [t1|t1|t1 cmds].
   - destruct Hsh as [-> Hc]. cbn [fst snd] in *.
-    apply NC_Wk; [|apply Hw].
-    eapply same_but_NC; [exact Hn|apply same_but_refl|exact Hc|auto|apply Hn].
+    split; [eapply same_but_NC; [exact Hn|apply same_but_refl|exact Hc|auto|apply Hn]|exact Hchk].
   - destruct Hsh as [Hs Ho]. cbn [fst snd] in *. rewrite Ho. eapply force_fail_W; [exact Hn|exact Hs].
-  - destruct Hsh as [Hs [Hok [Hlen Hcase]]]. cbn [fst snd] in *.
+  - destruct Hsh as [Hs [Hok [Hrg [Hlen Hcase]]]]. cbn [fst snd] in *.
     assert (Hsame := Hs). destruct Hsame as [A [B [C [D [E [F [G G']]]]]]].
     assert (Hops : (forall o, In o ops -> In o (snd t1)) /\ forallb plain_op (snd t1) = true).
     { pose proof (N_ops _ _ _ Hn) as Hp.
@@ -965,15 +1195,19 @@ Proof.
       - rewrite forallb_app, Hp. reflexivity. }
     destruct Hops as [Hsub Hpl].
     assert (N1 : WkNC None (fst t1) (snd t1)) by (eapply same_but_NC; [exact Hn|exact Hs|exact Hx|exact Hsub|exact Hpl]).
-    destruct (dispatch_ok sp f t1 cmds Hok (N_live _ _ _ N1) (N_okb _ _ _ N1) (N_bl _ _ _ N1)) as [Hfl Hd].
+    destruct (dispatch_ok sp f t1 cmds Hok) as [Hfl Hd].
+    { intros k a b Hin. specialize (Hrg k a b Hin). lia. }
+    { apply (N_live _ _ _ N1). }
+    { apply (N_okb _ _ _ N1). }
     { rewrite C. lia. }
     destruct (dispatch sp f t1 cmds) as [t' fl] eqn:Ed. cbn [fst snd] in Hfl, Hd. subst fl.
-    apply NC_Wk; [eapply disp_NC; [exact Hd|exact N1]|].
+    split; [eapply disp_NC; [exact Hd|apply NC_clear_backlog; exact N1]|].
     intros Hr. pose proof (ds_running _ _ _ Hd Hr) as Hr1.
-    destruct (ds_new _ _ _ Hd) as [nt [more [T1 [T2 [T3 [T4 [T5 T6]]]]]]].
+    destruct (ds_new _ _ _ Hd) as [nt [more [T1 [T2 [T3 [T4 [T5 [T6 T7]]]]]]]].
+    assert (Hw0 : wf_state s = RUNNING) by congruence.
     destruct Hcase as [[Hp _]|[_ [[_ Ho]|[Hrun _]]]].
-    + rewrite B in Hr1. congruence.
-    + right. left. rewrite T3, Ho. apply in_or_app. left. apply in_or_app. right. left. reflexivity.
+    + congruence.
+    + right. left. left. rewrite T3, Ho. apply in_or_app. left. apply in_or_app. right. left. reflexivity.
     + left. specialize (T6 Hr Hrun). destruct nt as [|r0 nt]; [contradiction|].
       exists (length (tasks (fst t1))), r0. split.
       * rewrite T1, nth_error_app2 by lia. rewrite Nat.sub_diag. reflexivity.
@@ -982,65 +1216,98 @@ Qed.
 End Complete.
 
 (* ================================================================= the events *)
+Lemma NC_ops_mono X s ops : WkNC X s [] -> forallb plain_op ops = true -> WkNC X s ops.
+Proof.
+  intros [H1 H2 H3 H4 H5 H6 H7 H8 H9 H10] Hp.
+  constructor; try assumption.
+  - intros tid r Hx Hn Hi. eapply start_pending_mono; [| |exact (H6 tid r Hx Hn Hi)]; [auto|intros y []].
+  - intros tid r Hx Hn Hi. destruct (H7 tid r Hx Hn Hi) as [aid [a [A1 [A2 [A3 A4]]]]]. exists aid, a. repeat split; auto.
+    eapply act_pending_mono; [| |exact A4]; [auto|intros y []].
+Qed.
+
 Section Events.
 Variable sp : spec.
 Hypothesis Hnj : nojoin sp.
 
-Lemma fire_start_W s tid rest :
-  Wk None s [] -> (forall x, In x (pend s) -> x = IStartTask tid true false false \/ In x rest) ->
-  (forall x, In x rest -> In x (pend s)) ->
-  Wk None (fst (do_start_task sp (set_pend s rest) tid true false false)) [].
+Lemma fire_start_W s tid f r x rest :
+  sflag f r x = true ->
+  Wk None s [] -> (forall y, In y (pend s) -> y = IStartTask tid f r x \/ In y rest) ->
+  (forall y, In y rest -> In y (pend s)) ->
+  Wk None (fst (do_start_task sp (set_pend s rest) tid f r x)) [].
 Proof.
-  intros Hw Hsplit Hsub. set (it := IStartTask tid true false false) in *.
+  intros Hfl [Hn Hchk] Hsplit Hsub. set (it := IStartTask tid f r x) in *.
   assert (Hne : forall q, it <> IPtq q) by (intros; discriminate).
   assert (Hact : forall X' aid a, nth_error (acts s) aid = Some a -> X' <> Some (a_task a) -> is_completed (a_state a) = false ->
             it <> IExec aid /\ forall r, it <> IResult aid r) by (intros; split; intros; discriminate).
   unfold do_start_task. cbn [set_pend tasks].
   destruct (Nat.leb (length (tasks s)) tid) eqn:El.
-  - cbn [fst]. apply Nat.leb_le in El. apply (drop_item_W None s it rest Hne Hsplit Hsub); [|apply Hact|exact Hw].
-    intros k r _ Hk _ E. injection E as E1. assert (k < length (tasks s)) by (apply nth_error_Some; congruence). lia.
-  - apply Nat.leb_gt in El. cbn [andb negb].
-    destruct (nth_error (tasks s) tid) as [r|] eqn:En; [|apply nth_error_None in En; lia].
+  - cbn [fst]. apply Nat.leb_le in El. split.
+    + apply (drop_item_NC None s it rest Hne Hsplit Hsub); [|apply Hact|exact Hn].
+      intros k r0 f' r' x' _ Hk _ E. injection E as E1. assert (k < length (tasks s)) by (apply nth_error_Some; congruence). lia.
+    + cbn [set_pend wf_state pend]. intros Hw. apply (chk_drop s it rest Hne Hsplit); [|exact (Hchk Hw)].
+      intros k Hk E. injection E as E1. lia.
+  - apply Nat.leb_gt in El.
+    destruct (nth_error (tasks s) tid) as [r0|] eqn:En; [|apply nth_error_None in En; lia].
     unfold get_task. cbn [set_pend tasks]. rewrite (nth_error_nth' _ _ dummy_trow _ En).
-    destruct (is_idle (t_state r)) eqn:Ei; cbn [fst].
-    + assert (Hidle : t_state r = IDLE) by (destruct (t_state r); try discriminate Ei; reflexivity).
-      apply (start_new_W sp _ tid r Hnj); [|exact En|exact Hidle].
-      apply (drop_item_W (Some tid) s it rest Hne Hsplit Hsub); [|apply Hact|exact Hw].
-      intros k r0 Hx _ _ E. injection E as E1. congruence.
-    + rewrite nojoin_check_affected by exact Hnj. unfold commit. cbn [fst snd].
-      apply (drop_item_W None s it rest Hne Hsplit Hsub); [|apply Hact|exact Hw].
-      intros k r0 _ Hk Hi E. injection E as E1. rewrite <- E1 in Hk. rewrite En in Hk. injection Hk as Hk. rewrite <- Hk in Hi. rewrite Hi in Ei. discriminate.
+    assert (Hstart : t_state r0 = IDLE ->
+      Wk None (commit (check_affected sp (schedule_action (task_set_state (set_pend s rest) tid RUNNING, []) tid) tid)) []).
+    { intros Hidle. apply (start_new_W sp _ tid r0 Hnj); [|exact En|exact Hidle].
+      apply (drop_item_NC (Some tid) s it rest Hne Hsplit Hsub); [|apply Hact|exact Hn].
+      intros k r1 f' r' x' Hx _ _ E. injection E as E1. congruence. }
+    assert (Hskip : is_idle (t_state r0) = false -> WkNC None (set_pend s rest) []).
+    { intros Ei. apply (drop_item_NC None s it rest Hne Hsplit Hsub); [|apply Hact|exact Hn].
+      intros k r1 f' r' x' _ Hk Hi E. injection E as E1. rewrite <- E1 in Hk. rewrite En in Hk. injection Hk as Hk.
+      rewrite <- Hk in Hi. rewrite Hi in Ei. discriminate. }
+    assert (Hidle_eq : is_idle (t_state r0) = true -> t_state r0 = IDLE)
+      by (destruct (t_state r0); intros E; try discriminate E; reflexivity).
+    destruct f, r, x; try discriminate Hfl; cbn [negb andb].
+    + (* the original request *)
+      destruct (is_idle (t_state r0)) eqn:Ei; cbn [fst]; [apply Hstart, Hidle_eq; reflexivity|].
+      rewrite nojoin_check_affected by exact Hnj. unfold commit. cbn [fst snd].
+      split; [apply Hskip; reflexivity|].
+      cbn [set_pend wf_state pend]. intros Hw. apply (chk_drop s it rest Hne Hsplit); [|exact (Hchk Hw)].
+      intros k _ E. discriminate E.
+    + (* a request issued by resume *)
+      destruct (is_idle (t_state r0)) eqn:Ei; cbn [negb fst]; [apply Hstart, Hidle_eq; reflexivity|].
+      change (Wk None (commit (set_pend s rest, [OCheck])) []). apply commit_W.
+      split; [apply NC_ops_mono; [apply Hskip; reflexivity|reflexivity]|].
+      intros _. right. left. left. left. reflexivity.
 Qed.
 
 Lemma fire_exec_W s aid rest c res :
   Wk None s [] -> (forall x, In x (pend s) -> x = IExec aid \/ In x rest) -> (forall x, In x rest -> In x (pend s)) ->
   Wk None (add_pend (set_calls (set_pend s rest) c) (IResult aid res)) [].
 Proof.
-  intros [H1 H2 H3 H4 H5 H6 H7 H8 H9 H10 H11] Hsplit Hsub. set (it := IExec aid) in *.
+  intros [[H1 H2 H3 H4 H5 H6 H7 H8 H9 H10] H11] Hsplit Hsub. set (it := IExec aid) in *.
   assert (Hne : forall q, it <> IPtq q) by (intros; discriminate).
   assert (Hoa : forall o, op_avail (pend s) [] o -> op_avail (rest ++ [IResult aid res]) [] o).
   { intros o Ho. apply (op_avail_rest s it rest o Hne Hsplit) in Ho.
     eapply op_avail_pend_mono; [|exact Ho]. intros i Hi. apply in_or_app. left. exact Hi. }
   assert (Hit : forall i, i <> it -> In i (pend s) -> In i (rest ++ [IResult aid res])).
   { intros i Hi Hin. apply in_or_app. left. destruct (Hsplit _ Hin) as [E|E]; [contradiction|exact E]. }
-  constructor; cbn [add_pend set_calls set_pend wf_created wf_state backlog tasks acts pend]; try assumption.
-  - intros tid r Hx Hn Hi. destruct (H6 tid r Hx Hn Hi) as [H|H]; [left; apply Hit; [discriminate|exact H]|right; apply Hoa, H].
-  - intros tid r Hx Hn Hi. destruct (H7 tid r Hx Hn Hi) as [aid' [a [A1 [A2 [A3 A4]]]]].
-    exists aid', a. repeat split; auto. destruct A4 as [A|[[q A]|A]].
-    + destruct (Nat.eq_dec aid' aid) as [->|Hd].
-      * right. left. exists res. apply in_or_app. right. left. reflexivity.
-      * left. apply Hit; [intros E; inversion E; contradiction|exact A].
-    + right. left. exists q. apply Hit; [discriminate|exact A].
-    + right. right. apply Hoa, A.
-  - rewrite forallb_app. rewrite (forallb_sub _ _ _ Hsub H9). reflexivity.
-  - intros Hw. destruct (H11 Hw) as [H|H]; [left; exact H|right; apply Hoa, H].
+  split.
+  - constructor; cbn [add_pend set_calls set_pend wf_created wf_state backlog tasks acts pend]; try assumption.
+    + intros tid r Hx Hn Hi. destruct (H6 tid r Hx Hn Hi) as [f' [r'' [x' [Hs [H|H]]]]]; exists f', r'', x'; (split; [exact Hs|]);
+        [left; apply Hit; [discriminate|exact H]|right; apply Hoa, H].
+    + intros tid r Hx Hn Hi. destruct (H7 tid r Hx Hn Hi) as [aid' [a [A1 [A2 [A3 A4]]]]].
+      exists aid', a. repeat split; auto. destruct A4 as [A|[[q A]|A]].
+      * destruct (Nat.eq_dec aid' aid) as [->|Hd].
+        -- right. left. exists res. apply in_or_app. right. left. reflexivity.
+        -- left. apply Hit; [intros E; inversion E; contradiction|exact A].
+      * right. left. exists q. apply Hit; [discriminate|exact A].
+      * right. right. apply Hoa, A.
+    + rewrite forallb_app. rewrite (forallb_sub _ _ _ Hsub H9). reflexivity.
+  - cbn [add_pend set_calls set_pend wf_state pend tasks]. intros Hw. destruct (H11 Hw) as [H|[H|[tid [Ht H]]]].
+    + left. exact H.
+    + right. left. apply Hoa, H.
+    + right. right. exists tid. split; [exact Ht|]. destruct H as [H|H]; [left; apply Hit; [discriminate|exact H]|right; apply Hoa, H].
 Qed.
 
-Lemma upd_act_W tid s aid a x :
-  Wk (Some tid) s [] -> nth_error (acts s) aid = Some a -> a_task a = tid ->
-  Wk (Some tid) (upd_act s aid (mkArow tid x true)) [].
+Lemma upd_act_NC tid s aid a x :
+  WkNC (Some tid) s [] -> nth_error (acts s) aid = Some a -> a_task a = tid ->
+  WkNC (Some tid) (upd_act s aid (mkArow tid x true)) [].
 Proof.
-  intros [H1 H2 H3 H4 H5 H6 H7 H8 H9 H10 H11] Ha Ht.
+  intros [H1 H2 H3 H4 H5 H6 H7 H8 H9 H10] Ha Ht.
   constructor; cbn [upd_act wf_created wf_state backlog tasks acts pend]; try assumption.
   - intros k r Hx Hk Hi. destruct (H7 k r Hx Hk Hi) as [aid' [b [A1 [A2 [A3 A4]]]]].
     exists aid', b. repeat split; auto. rewrite nth_error_set_nth_other; [exact A1|].
@@ -1057,30 +1324,34 @@ Lemma fire_result_W s aid res rest :
   Wk None s [] -> (forall x, In x (pend s) -> x = IResult aid res \/ In x rest) -> (forall x, In x rest -> In x (pend s)) ->
   Wk None (match do_result sp (set_pend s rest) aid res with (s1, Ok) => s1 | (_, _) => set_pend s rest end) [].
 Proof.
-  intros Hw Hsplit Hsub. set (it := IResult aid res) in *. set (s0 := set_pend s rest).
+  intros [Hn Hchk] Hsplit Hsub. set (it := IResult aid res) in *. set (s0 := set_pend s rest).
   assert (Hne : forall q, it <> IPtq q) by (intros; discriminate).
-  assert (Hst : forall X' tid r, X' <> Some tid -> nth_error (tasks s) tid = Some r -> t_state r = IDLE ->
-            it <> IStartTask tid true false false) by (intros; discriminate).
+  assert (Hst : forall X' tid r f r' x, X' <> Some tid -> nth_error (tasks s) tid = Some r -> t_state r = IDLE ->
+            it <> IStartTask tid f r' x) by (intros; discriminate).
+  assert (Hchk0 : wf_state s0 = RUNNING -> chk s0 (pend s0) []).
+  { intros Hw. apply (chk_drop s it rest Hne Hsplit); [intros; discriminate|exact (Hchk Hw)]. }
   unfold do_result. change (acts s0) with (acts s).
   destruct (Nat.leb (length (acts s)) aid) eqn:El.
-  - apply Nat.leb_le in El. apply (drop_item_W None s it rest Hne Hsplit Hsub); [apply Hst| |exact Hw].
+  - apply Nat.leb_le in El. split; [|exact Hchk0].
+    apply (drop_item_NC None s it rest Hne Hsplit Hsub); [apply Hst| |exact Hn].
     intros k a Hk _ _. split; [discriminate|]. intros r E. injection E as E1 E2.
     assert (k < length (acts s)) by (apply nth_error_Some; congruence). lia.
   - apply Nat.leb_gt in El.
     destruct (nth_error (acts s) aid) as [a|] eqn:Ea; [|apply nth_error_None in Ea; lia].
     unfold get_act. change (acts s0) with (acts s). rewrite (nth_error_nth' _ _ dummy_arow _ Ea).
     destruct (is_completed (a_state a)) eqn:Ec.
-    + apply (drop_item_W None s it rest Hne Hsplit Hsub); [apply Hst| |exact Hw].
+    + split; [|exact Hchk0]. apply (drop_item_NC None s it rest Hne Hsplit Hsub); [apply Hst| |exact Hn].
       intros k b Hk _ Hb. split; [discriminate|]. intros r E. injection E as E1 E2. rewrite <- E1 in Hk. rewrite Ea in Hk. injection Hk as Hk. congruence.
     + cbv zeta. set (x := state_of_outcome res). set (tid := a_task a).
       destruct (state_of_outcome_ok res) as [Hx Hsk]. fold x in Hx, Hsk.
-      assert (W0 : Wk (Some tid) s0 []).
-      { apply (drop_item_W (Some tid) s it rest Hne Hsplit Hsub); [apply Hst| |exact Hw].
+      assert (W0 : WkNC (Some tid) s0 []).
+      { apply (drop_item_NC (Some tid) s it rest Hne Hsplit Hsub); [apply Hst| |exact Hn].
         intros k b Hk Hxk Hb. split; [discriminate|]. intros r E. injection E as E1 E2. rewrite <- E1 in Hk. rewrite Ea in Hk.
         injection Hk as Hk. apply Hxk. unfold tid. rewrite Hk. reflexivity. }
-      assert (W1 : Wk (Some tid) (upd_act s0 aid (mkArow tid x true)) []) by (apply (upd_act_W tid s0 aid a x W0 Ea eq_refl)).
+      assert (W1 : WkNC (Some tid) (upd_act s0 aid (mkArow tid x true)) []) by (apply (upd_act_NC tid s0 aid a x W0 Ea eq_refl)).
       set (s1 := upd_act s0 aid (mkArow tid x true)) in *.
-      pose proof (complete_task_W sp Hnj (FUEL sp s1) s1 [] tid x W1 Hx Hsk) as Hc.
+      assert (W1' : Wk (Some tid) s1 []) by (split; [exact W1|exact Hchk0]).
+      pose proof (complete_task_W sp Hnj (FUEL sp s1) s1 [] tid x W1' Hx Hsk) as Hc.
       assert (Hfuel : spec_size sp + length (backlog s1) + 3 < FUEL sp s1) by (unfold FUEL; lia).
       specialize (Hc Hfuel).
       destruct (complete_task sp (FUEL sp s1) (s1, []) tid x) as [t1 fl]. destruct fl.
@@ -1089,17 +1360,205 @@ Proof.
 Qed.
 End Events.
 
+(* ================================================================= operator events: pause, stop, resume *)
+Lemma hdr_quiet_W s y : Wk None s [] -> live_wf_state y = true -> y <> RUNNING -> Wk None (set_wf_state s y) [].
+Proof.
+  intros [Hn _] Hl Hy. split.
+  - eapply hdr_NC; [exact Hn|right; exists y; reflexivity|exact Hl|intros; contradiction].
+  - intros; contradiction.
+Qed.
+
+Lemma pause_W s s1 : Wk None s [] -> pause_workflow s = Some s1 -> Wk None s1 [].
+Proof.
+  intros Hw. unfold pause_workflow. destruct (is_paused (wf_state s)); [intros H; injection H as <-; exact Hw|].
+  intros H. apply wf_set_state_inv in H. subst s1. apply hdr_quiet_W; [exact Hw|reflexivity|discriminate].
+Qed.
+
+Lemma stop_W s x s1 : Wk None s [] -> stop_workflow s x = Some s1 -> Wk None s1 [].
+Proof.
+  intros Hw. unfold stop_workflow, succeed_workflow, fail_workflow, cancel_workflow.
+  destruct x; try (intros H; injection H as <-; exact Hw).
+  - intros H. apply wf_set_state_inv in H. subst s1. apply hdr_quiet_W; [exact Hw|reflexivity|discriminate].
+  - destruct (is_completed (wf_state s)); [intros H; injection H as <-; exact Hw|].
+    intros H. apply wf_set_state_inv in H. subst s1. apply hdr_quiet_W; [exact Hw|reflexivity|discriminate].
+  - destruct (is_completed (wf_state s)); [intros H; injection H as <-; exact Hw|].
+    intros H. apply wf_set_state_inv in H. subst s1. apply hdr_quiet_W; [exact Hw|reflexivity|discriminate].
+Qed.
+
+(* --- resume *)
+Lemma NC_frame X s s' ops : WkNC X s ops ->
+  wf_created s' = true -> live_wf_state (wf_state s') = true -> bks (length (tasks s')) (backlog s') ->
+  (wf_state s' = RUNNING -> backlog s' = []) -> acts s' = acts s -> pend s' = pend s ->
+  length (tasks s') = length (tasks s) ->
+  (forall k r', nth_error (tasks s') k = Some r' -> exists r, nth_error (tasks s) k = Some r /\ t_state r = t_state r') ->
+  WkNC X s' ops.
+Proof.
+  intros [H1 H2 H3 H4 H5 H6 H7 H8 H9 H10] C L B BL A P LT T.
+  constructor; try assumption; rewrite ?A, ?P, ?LT; try assumption.
+  - intros k r' Hk. destruct (T k r' Hk) as [r [Hr <-]]. eapply H5; exact Hr.
+  - intros k r' Hx Hk Hi. destruct (T k r' Hk) as [r [Hr E]]. rewrite <- E in Hi. exact (H6 k r Hx Hr Hi).
+  - intros k r' Hx Hk Hi. destruct (T k r' Hk) as [r [Hr E]]. rewrite <- E in Hi. exact (H7 k r Hx Hr Hi).
+Qed.
+
+Lemma mark_processed_tasks s k r' : nth_error (tasks (mark_processed s)) k = Some r' ->
+  exists r, nth_error (tasks s) k = Some r /\ t_state r = t_state r'.
+Proof.
+  cbn [mark_processed tasks]. rewrite nth_error_map. destruct (nth_error (tasks s) k) as [r|]; [|discriminate].
+  cbn. intros H. injection H as <-. exists r. split; [reflexivity|]. destruct (_ && _); reflexivity.
+Qed.
+
+Lemma incomplete_mark_processed s : incomplete_task (mark_processed s) -> incomplete_task s.
+Proof. intros [k [r' [Hk Hc]]]. destruct (mark_processed_tasks s k r' Hk) as [r [Hr E]]. exists k, r. split; [exact Hr|congruence]. Qed.
+
+Lemma no_waiting_refresh s :
+  (forall tid r, nth_error (tasks s) tid = Some r -> is_completed (t_state r) = true \/ t_state r = IDLE \/ t_state r = RUNNING) ->
+  schedule_waiting_refresh s = s.
+Proof.
+  intros H. unfold schedule_waiting_refresh.
+  assert (G : forall l acc, (forall p, In p l -> state_eqb (t_state (snd p)) WAITING = false) ->
+             fold_left (fun acc p => if state_eqb (t_state (snd p)) WAITING && negb (has_refresh_job acc (fst p))
+                                     then add_pend acc (IRefresh (fst p)) else acc) l acc = acc).
+  { induction l as [|p l IH]; intros acc Hl; [reflexivity|]. simpl. rewrite (Hl p (or_introl eq_refl)). simpl. apply IH.
+    intros q Hq. apply Hl. right. exact Hq. }
+  apply G. intros [k r] Hin. simpl. apply in_combine_r in Hin. apply In_nth_error in Hin. destruct Hin as [n Hn].
+  destruct (H n r Hn) as [Hc|[Hi|Hr]]; [destruct (t_state r); try discriminate Hc; reflexivity|rewrite Hi; reflexivity|rewrite Hr; reflexivity].
+Qed.
+
+Lemma filter_length_le {A} (f : A -> bool) l : length (filter f l) <= length l.
+Proof. induction l as [|a l IH]; simpl; [lia|]. destruct (f a); simpl; lia. Qed.
+
+Lemma flat_map_le1 {A B} (f : A -> list B) l : (forall x, length (f x) <= 1) -> length (flat_map f l) <= length l.
+Proof. intros H. induction l as [|a l IH]; simpl; [lia|]. rewrite app_length. specialize (H a). lia. Qed.
+
+Section Resume.
+Variable sp : spec.
+Hypothesis Hnj : nojoin sp.
+
+Lemma more_props : forall (unproc : list (nat * trow)) more,
+  fold_right (fun p acc => match acc, find_next_tasks sp (snd p) with
+                           | Some l, Some m => Some (map (to_cmd sp (fst p)) m ++ l)
+                           | _, _ => None end) (Some []) unproc = Some more ->
+  okcs more /\ in_range 0 more /\ length more <= length unproc * spec_size sp.
+Proof.
+  induction unproc as [|p l IH]; intros more H; simpl in H.
+  - injection H as <-. split; [constructor|]. split; [intros ? ? ? []|simpl; lia].
+  - destruct (fold_right _ _ l) as [l0|] eqn:E; [|discriminate].
+    destruct (find_next_tasks sp (snd p)) as [m|] eqn:Em; [|discriminate]. injection H as <-.
+    destruct (IH l0 eq_refl) as [I1 [I2 I3]]. split; [|split].
+    + apply Forall_app. split; [apply Forall_okc_map, Hnj|exact I1].
+    + intros tid a b Hin. apply in_app_or in Hin. destruct Hin as [Hin|Hin]; [eapply map_to_cmd_in_range; exact Hin|eapply I2; exact Hin].
+    + rewrite app_length, map_length. apply find_next_len in Em. simpl. lia.
+Qed.
+
+Lemma resume_W s : Wk None s [] -> Wk None (fst (step sp s EResume)) [].
+Proof.
+  intros Hw. pose proof Hw as [Hn Hchk]. unfold step. rewrite (N_created _ _ _ Hn). cbn [negb].
+  pose proof (N_live _ _ _ Hn) as Hl.
+  destruct (wf_state s) eqn:Ew; try discriminate Hl; try exact Hw.
+  (* PAUSED *)
+  change (negb (is_paused_or_idle PAUSED)) with false. cbv iota.
+  assert (Es1 : wf_set_state s RUNNING = Some (set_wf_state s RUNNING)) by (unfold wf_set_state; rewrite Ew; reflexivity).
+  rewrite Es1. set (s1 := set_wf_state s RUNNING). cbv zeta.
+  set (idle := flat_map (fun p : nat * trow => if is_idle (t_state (snd p)) then [CRunExisting (fst p) true false] else [])
+                        (combine (seq 0 (length (tasks s1))) (tasks s1))).
+  set (unproc := filter (fun p : nat * trow => is_completed (t_state (snd p)) && negb (t_processed (snd p)))
+                        (combine (seq 0 (length (tasks s1))) (tasks s1))).
+  destruct (fold_right _ (Some []) unproc) as [more|] eqn:Emore; [|exact Hw].
+  destruct (more_props unproc more Emore) as [M1 [M2 M3]].
+  set (n := length (tasks s)) in *.
+  assert (Hcomb : length (combine (seq 0 (length (tasks s1))) (tasks s1)) = n).
+  { rewrite combine_length, seq_length. cbn. apply Nat.min_id. }
+  assert (Hidle_ok : okcs idle).
+  { apply Forall_forall. intros c Hc. apply in_flat_map in Hc. destruct Hc as [p [_ Hc]].
+    destruct (is_idle _); [destruct Hc as [<-|[]]; reflexivity|destruct Hc]. }
+  assert (Hidle_rg : in_range n idle).
+  { intros tid a b Hin. apply in_flat_map in Hin. destruct Hin as [[k r] [Hp Hc]]. cbn [fst snd] in Hc.
+    destruct (is_idle _); [|destruct Hc]. destruct Hc as [Hc|[]]. injection Hc as <- _ _.
+    apply in_combine_l in Hp. apply in_seq in Hp. cbn in Hp. unfold n. lia. }
+  assert (Hidle_len : length idle <= n).
+  { rewrite <- Hcomb. apply flat_map_le1. intros p. destruct (is_idle _); simpl; lia. }
+  assert (Hun_len : length unproc <= n) by (rewrite <- Hcomb; apply filter_length_le).
+  unfold continue_workflow, continue_workflow_cmds.
+  set (cmds' := filter (fun c => match c with CSetState PAUSED => false | CNoop => false | _ => true end) (idle ++ more)).
+  cbn [fst snd].
+  set (s' := mark_processed s1).
+  assert (Hok' : okcs cmds').
+  { apply Forall_forall. intros c Hc. apply filter_In in Hc. destruct Hc as [Hc _]. apply in_app_or in Hc.
+    unfold okcs in Hidle_ok, M1. rewrite Forall_forall in Hidle_ok, M1. destruct Hc as [Hc|Hc]; [apply Hidle_ok, Hc|apply M1, Hc]. }
+  assert (Hrg' : in_range n cmds').
+  { intros tid a b Hin. apply filter_In in Hin. destruct Hin as [Hin _]. apply in_app_or in Hin.
+    destruct Hin as [Hin|Hin]; [eapply Hidle_rg; exact Hin|]. specialize (M2 tid a b Hin). lia. }
+  assert (Hnn' : forall c, In c cmds' -> nonnoop c = true).
+  { intros c Hc. apply filter_In in Hc. destruct Hc as [_ Hc]. destruct c; try reflexivity. discriminate. }
+  assert (Hlen' : length cmds' <= n + n * spec_size sp).
+  { unfold cmds'. etransitivity; [apply filter_length_le|]. rewrite app_length.
+    assert (length unproc * spec_size sp <= n * spec_size sp) by (apply Nat.mul_le_mono_r; exact Hun_len). lia. }
+  assert (Hts' : length (tasks s') = n) by (cbn; rewrite map_length; reflexivity).
+  (* the invariant at the state where the dispatch starts (backlog taken) *)
+  assert (N' : WkNC None (set_backlog s' []) []).
+  { eapply (NC_frame None s); [exact Hn|exact (N_created _ _ _ Hn)|reflexivity|constructor|reflexivity|reflexivity|reflexivity| |].
+    - cbn. rewrite map_length. reflexivity.
+    - intros k r' Hk. apply (mark_processed_tasks s1 k r'). exact Hk. }
+  destruct cmds' as [|c0 cs] eqn:Ecm.
+  - destruct (backlog s') as [|b0 bl] eqn:Ebl.
+    + (* nothing to dispatch: completion check *)
+      assert (Ns : WkNC None s' []).
+      { replace s' with (set_backlog s' []) by (apply set_backlog_nil; exact Ebl). exact N'. }
+      destruct (cac_spec s' (N_live _ _ _ Ns)) as [s2 [E2 [Hh [Hl2 [Hr2 Hq2]]]]]. rewrite E2. cbn [fst snd].
+      assert (N2 : WkNC None s2 []) by (eapply hdr_NC; [exact Ns|exact Hh|exact Hl2|intros H; apply (Hr2 H)]).
+      rewrite (no_waiting_refresh s2 (N_states _ _ _ N2)).
+      change (Wk None (commit (s2, [])) []). apply commit_W. split; [exact N2|].
+      intros H. left. destruct (Hr2 H) as [_ Hi]. eapply incomplete_task_frame; [|exact Hi].
+      destruct Hh as [->|[y ->]]; reflexivity.
+    + (* backlog only *)
+      destruct (dispatch_ok sp (FUEL sp s') (s', []) []) as [Hfl Hd].
+      { constructor. } { intros ? ? ? []. } { reflexivity. }
+      { cbn [fst]. rewrite Hts'. apply (N_okb _ _ _ Hn). }
+      { cbn [fst]. unfold FUEL. change (backlog s') with (backlog s). simpl. lia. }
+      destruct (dispatch sp (FUEL sp s') (s', []) []) as [t1 fl]. cbn [fst snd] in Hfl, Hd. subst fl. cbn [fst snd].
+      pose proof (disp_NC None _ _ _ Hd N') as N1.
+      rewrite (no_waiting_refresh (fst t1) (N_states _ _ _ N1)).
+      destruct t1 as [sa oa]. cbn [fst snd] in *. apply commit_W. split; [exact N1|].
+      intros H. destruct (ds_new _ _ _ Hd) as [nt [more' [T1 [T2 [T3 [_ [_ [_ T7]]]]]]]]. cbn [fst snd] in T1, T2, T3, T7.
+      assert (Hne : filter nonnoop (backlog s') ++ filter nonnoop [] <> []).
+      { rewrite Ebl. pose proof (N_okb _ _ _ Hn) as Hb. change (backlog s) with (backlog s') in Hb. rewrite Ebl in Hb.
+        inversion Hb as [|? ? Hb0 _]; subst. unfold bk_ok in Hb0. apply andb_true_iff in Hb0. destruct Hb0 as [Hb0 _].
+        apply andb_true_iff in Hb0. destruct Hb0 as [_ Hb0]. simpl. rewrite Hb0. discriminate. }
+      destruct (T7 H Hne) as [Hnt|[tid [Ht Hin]]].
+      * left. destruct nt as [|r0 nt]; [contradiction|]. exists (length (tasks s')), r0. split.
+        -- rewrite T1, nth_error_app2 by lia. rewrite Nat.sub_diag. reflexivity.
+        -- inversion T2; subst. unfold idle_row in *. match goal with Hq : t_state r0 = IDLE |- _ => rewrite Hq end. reflexivity.
+      * right. right. exists tid. split; [exact Ht|]. right. left. rewrite T3. exact Hin.
+  - (* commands (and possibly a backlog) *)
+    destruct (dispatch_ok sp (FUEL sp s') (s', []) (c0 :: cs) Hok') as [Hfl Hd].
+    { cbn [fst]. rewrite Hts'. exact Hrg'. } { reflexivity. }
+    { cbn [fst]. rewrite Hts'. apply (N_okb _ _ _ Hn). }
+    { cbn [fst]. unfold FUEL. change (backlog s') with (backlog s). rewrite Hts'. change (length (c0 :: cs)) with (length (c0 :: cs)).
+      lia. }
+    destruct (dispatch sp (FUEL sp s') (s', []) (c0 :: cs)) as [t1 fl]. cbn [fst snd] in Hfl, Hd. subst fl. cbn [fst snd].
+    pose proof (disp_NC None _ _ _ Hd N') as N1.
+    rewrite (no_waiting_refresh (fst t1) (N_states _ _ _ N1)).
+    destruct t1 as [sa oa]. cbn [fst snd] in *. apply commit_W. split; [exact N1|].
+    intros H. destruct (ds_new _ _ _ Hd) as [nt [more' [T1 [T2 [T3 [_ [_ [_ T7]]]]]]]]. cbn [fst snd] in T1, T2, T3, T7.
+    assert (Hne : filter nonnoop (backlog s') ++ filter nonnoop (c0 :: cs) <> []).
+    { simpl. rewrite (Hnn' c0 (or_introl eq_refl)). intros E. apply app_eq_nil in E. destruct E as [_ E]. discriminate. }
+    destruct (T7 H Hne) as [Hnt|[tid [Ht Hin]]].
+    + left. destruct nt as [|r0 nt]; [contradiction|]. exists (length (tasks s')), r0. split.
+      * rewrite T1, nth_error_app2 by lia. rewrite Nat.sub_diag. reflexivity.
+      * inversion T2; subst. unfold idle_row in *. match goal with Hq : t_state r0 = IDLE |- _ => rewrite Hq end. reflexivity.
+    + right. right. exists tid. split; [exact Ht|]. right. left. rewrite T3. exact Hin.
+Qed.
+End Resume.
+
 (* ================================================================= the theorem *)
-Definition plain_ev (e : ev) : bool :=
+(* the events of a run that is not rerun / skipped by hand: start, every delivery, pause, resume, stop *)
+Definition live_ev (e : ev) : bool :=
   match e with
-  | EStart | EFire _ | EFirePtq _ | EEvict => true
+  | EStart | EFire _ | EFirePtq _ | EEvict | EPause | EResume | EStop _ => true
   | _ => false
   end.
 
 Definition LInv (s : st) : Prop := (wf_created s = false /\ pend s = []) \/ Wk None s [].
-
-Lemma filter_length_le {A} (f : A -> bool) l : length (filter f l) <= length l.
-Proof. induction l as [|a l IH]; simpl; [lia|]. destruct (f a); simpl; lia. Qed.
 
 Section Step.
 Variable sp : spec.
@@ -1116,33 +1575,34 @@ Proof.
     - rewrite Hp. reflexivity. }
   assert (Hok : okcs cmds).
   { apply Forall_forall. intros c Hin. apply in_map_iff in Hin. destruct Hin as [n [<- _]]. reflexivity. }
+  assert (Hrg : in_range 0 cmds).
+  { intros tid a b Hin. apply in_map_iff in Hin. destruct Hin as [n [Hn _]]. discriminate. }
   assert (Hlen : length cmds <= length sp).
   { unfold cmds, start_tasks. rewrite map_length. etransitivity; [apply filter_length_le|]. rewrite seq_length. lia. }
-  destruct (dispatch_ok sp (FUEL sp s0) (s0, []) cmds Hok (N_live _ _ _ N0) (N_okb _ _ _ N0) (N_bl _ _ _ N0)) as [Hfl Hd].
-  { unfold FUEL. cbn. lia. }
+  destruct (dispatch_ok sp (FUEL sp s0) (s0, []) cmds Hok) as [Hfl Hd].
+  { exact Hrg. } { reflexivity. } { constructor. } { unfold FUEL. cbn. lia. }
   destruct (dispatch sp (FUEL sp s0) (s0, []) cmds) as [t1 fl]. cbn [fst snd] in Hfl, Hd. subst fl.
-  pose proof (disp_NC None _ _ _ Hd N0) as N1.
+  pose proof (disp_NC None _ _ _ Hd (NC_clear_backlog _ _ _ N0)) as N1.
   destruct (cac_spec (fst t1) (N_live _ _ _ N1)) as [s2 [E2 [Hh [Hl [Hr Hq]]]]]. rewrite E2. cbn [fst].
-  right. apply commit_W. apply NC_Wk.
+  right. apply commit_W. split.
   - eapply hdr_NC; [exact N1|exact Hh|exact Hl|intros Hw; apply (Hr Hw)].
   - intros Hw. left. destruct (Hr Hw) as [_ Hi].
     eapply incomplete_task_frame; [|exact Hi]. destruct Hh as [->|[y ->]]; reflexivity.
 Qed.
 
-Theorem LInv_step s e : plain_ev e = true -> LInv s -> LInv (fst (step sp s e)).
+Theorem LInv_step s e : live_ev e = true -> LInv s -> LInv (fst (step sp s e)).
 Proof.
   intros He Hs. destruct e; try discriminate He.
   - (* EStart *)
     destruct Hs as [[Hc Hp]|Hw]; [apply start_W; assumption|].
-    unfold step. rewrite (W_created _ _ _ Hw). right. exact Hw.
+    unfold step. rewrite (N_created _ _ _ (proj1 Hw)). right. exact Hw.
   - (* EFire *)
     unfold step. destruct (remove_first (item_eqb i) (pend s)) as [[it rest]|] eqn:Er; [|exact Hs].
     destruct Hs as [[Hc Hp]|Hw]; [rewrite Hp in Er; discriminate|].
     destruct (remove_first_spec _ _ _ _ Er) as [Hin [_ [Hsplit Hsub]]].
-    pose proof (W_items _ _ _ Hw) as Hit. rewrite forallb_forall in Hit. specialize (Hit _ Hin).
+    pose proof (N_items _ _ _ (proj1 Hw)) as Hit. rewrite forallb_forall in Hit. specialize (Hit _ Hin).
     destruct it as [tid f r x|aid|aid res|ops|tid]; simpl in Hit.
-    + destruct f; [|discriminate]. destruct r; [discriminate|]. destruct x; [discriminate|].
-      right. apply fire_start_W; assumption.
+    + right. apply fire_start_W; assumption.
     + right. cbn [fst]. apply fire_exec_W; assumption.
     + right. pose proof (fire_result_W sp Hnj s aid res rest Hw Hsplit Hsub) as H.
       destruct (do_result sp (set_pend s rest) aid res) as [s1 o]. destruct o; exact H.
@@ -1153,20 +1613,32 @@ Proof.
     destruct Hs as [[Hc Hp]|Hw]; [rewrite Hp in Er; discriminate|].
     destruct (remove_nth_ptq_spec _ _ _ _ Er) as [Hin [Hsplit Hsub]].
     right. cbn [fst]. apply run_ops_W. apply take_ptq_W; assumption.
+  - (* EPause *)
+    destruct Hs as [[Hc Hp]|Hw]; [unfold step; rewrite Hc; left; split; assumption|].
+    unfold step. rewrite (N_created _ _ _ (proj1 Hw)). cbn [negb].
+    destruct (pause_workflow s) as [s1|] eqn:E; [right; eapply pause_W; eassumption|right; exact Hw].
+  - (* EResume *)
+    destruct Hs as [[Hc Hp]|Hw]; [unfold step; rewrite Hc; left; split; assumption|].
+    right. apply resume_W; assumption.
+  - (* EStop *)
+    destruct Hs as [[Hc Hp]|Hw]; [unfold step; rewrite Hc; left; split; assumption|].
+    unfold step. rewrite (N_created _ _ _ (proj1 Hw)). cbn [negb].
+    destruct (stop_workflow s x) as [s1|] eqn:E; [right; eapply stop_W; eassumption|right; exact Hw].
   - (* EEvict *) exact Hs.
 Qed.
 
-Lemma LInv_steps evs : forall s, forallb plain_ev evs = true -> LInv s -> LInv (steps sp s evs).
+Lemma LInv_steps evs : forall s, forallb live_ev evs = true -> LInv s -> LInv (steps sp s evs).
 Proof.
   induction evs as [|e evs IH]; intros s He Hs; [exact Hs|].
   simpl in He. apply andb_true_iff in He. destruct He as [He1 He2].
   unfold steps. simpl. apply IH; [exact He2|apply LInv_step; assumption].
 Qed.
 
-(* quiescence: nothing pending means every task execution and the workflow are final
-   (or the workflow was PAUSED by a `pause` command of its own definition) *)
+(* quiescence: nothing pending means every task execution is final and the workflow is completed or
+   PAUSED (by a `pause` command of its definition or by the operator; only a resume leaves PAUSED, and a
+   resumed run is covered by the same statement) *)
 Theorem no_stuck_joinfree u evs :
-  forallb plain_ev evs = true ->
+  forallb live_ev evs = true ->
   let s := run sp u evs in
   wf_created s = true -> pend s = [] ->
   (forall tid r, nth_error (tasks s) tid = Some r -> is_completed (t_state r) = true) /\
@@ -1175,21 +1647,24 @@ Proof.
   intros He s Hc Hp.
   assert (Hi : LInv s).
   { unfold s. rewrite run_steps. apply LInv_steps; [exact He|]. left. split; reflexivity. }
-  destruct Hi as [[Hc' _]|Hw]; [congruence|].
+  destruct Hi as [[Hc' _]|[Hn Hchk]]; [congruence|].
   assert (Hnone : forall n : nat, None <> Some n) by (intros; discriminate).
   assert (Hno : forall o, ~ op_avail (pend s) [] o).
   { intros o [[]|[q [Hq _]]]. rewrite Hp in Hq. destruct Hq. }
   assert (Htasks : forall tid r, nth_error (tasks s) tid = Some r -> is_completed (t_state r) = true).
-  { intros tid r Hn. destruct (W_states _ _ _ Hw tid r Hn) as [H|[H|H]]; [exact H| |].
-    - exfalso. destruct (W_idle _ _ _ Hw tid r (Hnone tid) Hn H) as [Hin|Ha]; [rewrite Hp in Hin; destruct Hin|apply (Hno _ Ha)].
-    - exfalso. destruct (W_running _ _ _ Hw tid r (Hnone tid) Hn H) as [aid [a [_ [_ [_ Hap]]]]].
+  { intros tid r Hk. destruct (N_states _ _ _ Hn tid r Hk) as [H|[H|H]]; [exact H| |].
+    - exfalso. destruct (N_idle _ _ _ Hn tid r (Hnone tid) Hk H) as [f [r' [x [_ [Hin|Ha]]]]];
+        [rewrite Hp in Hin; destruct Hin|apply (Hno _ Ha)].
+    - exfalso. destruct (N_running _ _ _ Hn tid r (Hnone tid) Hk H) as [aid [a [_ [_ [_ Hap]]]]].
       destruct Hap as [Hin|[[q Hin]|Ha]]; [rewrite Hp in Hin; destruct Hin|rewrite Hp in Hin; destruct Hin|apply (Hno _ Ha)]. }
   split; [exact Htasks|].
-  pose proof (W_live _ _ _ Hw) as Hl.
+  pose proof (N_live _ _ _ Hn) as Hl.
   destruct (wf_state s) eqn:Ew; try discriminate Hl; auto.
-  exfalso. destruct (W_check _ _ _ Hw Ew) as [[tid [r [Hn Hnc]]]|Hcp].
-  - rewrite (Htasks tid r Hn) in Hnc. discriminate.
+  exfalso. destruct (Hchk eq_refl) as [[tid [r [Hk Hnc]]]|[Hcp|[tid [_ [Hin|Ha]]]]].
+  - rewrite (Htasks tid r Hk) in Hnc. discriminate.
   - apply (Hno _ Hcp).
+  - rewrite Hp in Hin. destruct Hin.
+  - apply (Hno _ Ha).
 Qed.
 End Step.
 
@@ -1206,7 +1681,7 @@ Fixpoint drain_evs (sp : spec) (s : st) (fuel : nat) : list ev :=
     end
   end.
 
-(* fork with a guard, an on-error route and an engine command: 0 -> (1 | 2), 1 fails -> on-error 3, 2 -> succeed *)
+(* fork with a guard, an on-error route and an engine command: 0 -> (1 | 2), 1 fails -> on-error 3, 2 -> noop *)
 Definition demo_sp : spec :=
   [ mkTspec JNone [(TTask 1, GTrue); (TTask 2, GTrue); (TTask 3, GFalse)] [] [] [] [OOk];
     mkTspec JNone [] [(TTask 3, GTrue)] [] [] [OErr];
@@ -1216,6 +1691,21 @@ Definition demo_sp : spec :=
 Example no_stuck_joinfree_nonvacuous :
   let evs := EStart :: drain_evs demo_sp (fst (step demo_sp init EStart)) 100 in
   let s := run demo_sp [] evs in
-  nojoin_b demo_sp = true /\ forallb plain_ev evs = true /\ wf_created s = true /\ pend s = [] /\
+  nojoin_b demo_sp = true /\ forallb live_ev evs = true /\ wf_created s = true /\ pend s = [] /\
   length (tasks s) = 4 /\ wf_state s = SUCCESS /\ 20 < length evs.
 Proof. vm_compute. repeat split. apply Nat.leb_le. reflexivity. Qed.
+
+(* the history of defects F19/F20: task 0 issues two `pause` commands, task 1 is started while the
+   workflow is paused for the second time; two resumes later everything is final *)
+Definition pause2_sp : spec :=
+  [ mkTspec JNone [(TPause, GTrue)] [] [(TPause, GTrue)] [] [OOk];
+    mkTspec JNone [] [] [] [] [OOk] ].
+
+Example no_stuck_after_two_pauses :
+  let evs := [EStart; EFirePtq 0; EFire (IStartTask 1 true false false); EFirePtq 0; EFire (IExec 0); EFire (IResult 0 OOk);
+              EFirePtq 0; EResume; EFire (IStartTask 0 true false false); EFirePtq 0; EFire (IExec 1); EFire (IResult 1 OOk);
+              EResume; EFirePtq 0; EFire (IStartTask 0 false false true); EFirePtq 0] in
+  let s := run pause2_sp [1; 0] evs in
+  forallb live_ev evs = true /\ pend s = [] /\ length (tasks s) = 2 /\ wf_state s = SUCCESS /\
+  wf_state (run pause2_sp [1; 0] (firstn 8 evs)) = PAUSED /\ backlog (run pause2_sp [1; 0] (firstn 8 evs)) = [CRunExisting 0 true false].
+Proof. vm_compute. repeat split. Qed.
